@@ -1,285 +1,1644 @@
 """C04 - modules and hierarchy mirror the scanned directory tree, named from root_path.
 
-  C04.R1  entry points forward each parameter to the same-role parameter (module-object entry = pure delegation via dirname(__file__))
-  C04.R2  one registration per non-excluded directory / .py file, under the dotted name of its path
-  C04.R3  naming: root directory name + '.' + path relative to the root, suffix removed, separators -> '.'
-  C04.R4  hierarchy: every module gets its ancestor nodes and hierarchy edges; nodes are created from scanned modules and importers only
-  C04.R5  prefixes: absolute-import prefix from module_path.parent relative to root_path.parent; every absolute importee passes the
-          root-prefix adjustment, relative ones never; no character-set strip used as prefix/suffix removal
+  C04.R1  entry points: the module-object entry point is a pure delegation (dirname(__file__) of its two module objects, every other
+          option forwarded to the same-named option with the same default) - or, without a direct call, performs the same calls of
+          the scanning API; the path entry point hands each option to the consumer of that role (Parser source root <- root_path,
+          scan start <- module_path, file filter <- (regex_)exclusions, external filter <- its flag and patterns, graph <- level_limit)
+  C04.R2  a module is registered exactly for every non-excluded directory / .py file; descent, reading and parsing only after the
+          exclusion test on the path itself (rules/scan.py, shared with C08)
+  C04.R3  naming: root directory name + '.' + path relative to the root, suffix removed, one component per path part;
+          the root itself is named by its directory name
+  C04.R4  hierarchy: every scanned module becomes a node; all its ancestors (get_parent_modules) become nodes and every consecutive
+          (parent, child) pair of the chain gets an `inherits=True` edge; nodes are never created from *imported* names
+  C04.R5  prefixes: absolute-import prefix = module_path.parent relative to root_path.parent (dotted), used whenever module_path
+          differs from root_path; the internal-module set comes from the scan; every absolute importee is `prefix.name` exactly when
+          that is a scanned module (the sub-module test of `from x import y` is made on the adjusted name; decision table over all
+          membership scenarios), relative importees never are; no character-set strip used as prefix/suffix removal
+
+All rules are evaluated on symbolic executions of *public* entry points (rules/c04_symx.py): `get_evaluable_architecture`,
+`get_evaluable_architecture_for_module_objects`, `Parser.parse`, `NetworkxGraph.__init__`, `ImportConverter.convert`.  Private helpers
+are found by being reached from there, never by name; locals never appear in what is compared; values are compared in normal forms
+(rules/c04_norm.py).  A shape that cannot be interpreted is reported as undecided, never as a violation.
 """
 
 from __future__ import annotations
 
 import ast
+import itertools
+import re
 
-from core.flow import Flow, Spec
-from core.guards import atom, f_not, implies
-from core.loader import AnalysisError, FuncInfo, Repo, ancestors, calls_in, header, norm, own_nodes, parent
+from core.loader import AnalysisError, FuncInfo, Repo, calls_in, norm
 from core.report import Result
 
 from . import scan
-from .common import cfg_of, conds, dotted, guard_formula, is_attr_call, loops_around, reachable_funcs, stmt_of, truth, types_of, where
+from .c04_norm import FIRST_PART, alternatives, canon, dotted, leaves, loc, rename_atoms, restrict, seq, show_dotted, show_loc, strip_abs, unbox
+from .c04_symx import FALSE, TRUE, Event, Formula, SymX, Term, Trace, atom, atoms_of, evaluate, f_and, f_not, f_or, implies, is_const, rewrite, show, show_formula, simplify, substitute, subterms
+from .common import stmt_of, types_of, where
 
 ENTRY = "pytestarch.pytestarch"
-GG = "pytestarch.eval_structure_generation.graph_generation.graph_generator"
-PARSER = "pytestarch.eval_structure_generation.file_import.parser"
 NXGRAPH = "pytestarch.eval_structure.networkxgraph"
 CONVERTER = "pytestarch.eval_structure_generation.file_import.converter"
-
-# role map get_evaluable_architecture -> generate_graph (argument source -> callee parameter), one reason per renamed role
-GEN_ROLES = [
-    ("root_as_path", "root_path"),
-    ("module_as_path", "module_path"),
-    ("path_diff_between_root_and_module", "path_diff_between_root_and_module"),
-    ("regex_exclusions", "exclusions"),  # generate_graph receives regex patterns only: globs are converted before
-    ("exclude_external_libraries", "exclude_external_libraries"),
-    ("level_limit", "level_limit"),
-    ("regex_external_exclusions", "external_exclusions"),  # same: already converted
-]
+TYPES = "pytestarch.eval_structure.types"
 
 
 def run(repo: Repo) -> Result:
     res = Result("C04")
     res.explanation = (
-        "Decides (a) fully, that the module-object entry point is a pure delegation with dirname(__file__) of its first two parameters and "
-        "every other parameter forwarded to the same-named one, hence builds the same architecture; (b) that the path entry point forwards "
-        "each role to generate_graph; (c) registration: one module per non-excluded directory / .py file under _get_module_name(path) with the "
-        "documented naming shape; (d) hierarchy: ancestors and hierarchy edges for every module, nodes created only from scanned modules and "
-        "importers (never from imported names); (e) the absolute-import prefix and its uniform application to absolute importees."
+        "Decides, on symbolic executions of the public entry points (helpers are followed, locals replaced by their values): (a) the "
+        "module-object entry point is a pure delegation with dirname(__file__) of its first two parameters and every other parameter "
+        "forwarded to the same-named one, hence builds the same architecture; (b) the path entry point hands every option to the consumer "
+        "of its role; (c) registration: a module is registered exactly for every non-excluded directory / .py file, under the dotted name "
+        "`<root name>.<relative path without suffix>` of that path; (d) hierarchy: node for every scanned module, nodes and inherits-edges "
+        "along all its ancestors, no node from imported names; (e) the absolute-import prefix and its application to absolute importees."
     )
     res.not_decided = "names for arbitrary directory trees and 'sub-scan = restriction of the whole scan' (relations over concrete trees)."
-    res.trusted_base = ["pathlib / os.path semantics", "engine flow analysis"]
+    res.trusted_base = ["pathlib / os.path semantics", "symbolic executor rules/c04_symx.py"]
+    rule_r1(repo, res)
+    n = scan.run_registration(repo, res, "C04.R2")
+    if not any(u["rule"] == "C04.R2" for u in res.undecided):
+        res.floor("C04.R2", 7, n)
+    rule_r3(repo, res)
+    rule_r4(repo, res)
+    rule_r5(repo, res)
+    return res
+
+
+# =========================================================================== R1
+
+
+def _bind_args(callee: FuncInfo, e: Event) -> dict[str, Term]:
+    """Argument terms of a call event by parameter name of the callee (receiver parameter skipped)."""
+    names = callee.param_names
+    if callee.cls is not None and callee.outer is None and not callee.is_staticmethod:
+        names = names[1:]
+    out: dict[str, Term] = {}
+    for i, a in enumerate(e.args):
+        if a[0] == "star":
+            break
+        if i < len(names):
+            out[names[i]] = a
+    for k, v in e.kwargs:
+        if k == "**":
+            d = unbox(v)
+            if d[0] == "dict" and all(kk[0] == "const" and isinstance(kk[1], str) for kk, _vv in d[1]):
+                for kk, vv in d[1]:
+                    if kk[1] in names:
+                        out[kk[1]] = vv
+            else:
+                out["**"] = v
+        elif k in names:
+            out[k] = v
+    if any(a[0] == "star" for a in e.args):
+        out["*"] = next(a for a in e.args if a[0] == "star")
+    return out
+
+
+def _default(fi: FuncInfo, name: str) -> str | None:
+    a = fi.node.args
+    pos = [*a.posonlyargs, *a.args]
+    for i, p in enumerate(pos):
+        if p.arg == name:
+            j = i - (len(pos) - len(a.defaults))
+            return norm(a.defaults[j]) if j >= 0 else None
+    for p, d in zip(a.kwonlyargs, a.kw_defaults):
+        if p.arg == name:
+            return norm(d) if d is not None else None
+    return None
+
+
+def _param_leaves(t: Term, fi: FuncInfo) -> set[str]:
+    return {x[1] for x in leaves(t, ("param",)) if x[1] in fi.param_names}
+
+
+def _plain_loc(l: Term) -> bool:
+    """A location written with parameters, attributes and parent / relative steps only (comparable with an expected one)."""
+    if l[0] in ("PARENT", "ABS", "NOSUF"):
+        return _plain_loc(l[1])
+    if l[0] == "REL":
+        return _plain_loc(l[1]) and _plain_loc(l[2])
+    if l[0] == "attr":
+        return _plain_loc(l[1])
+    return l[0] in ("param", "const")
+
+
+def _strip_abs_deep(l: Term) -> Term:
+    """Location without abspath / resolve steps (a module's __file__ is an absolute path already)."""
+    if l[0] == "ABS":
+        return _strip_abs_deep(l[1])
+    if l[0] in ("PARENT", "NOSUF"):
+        return (l[0], _strip_abs_deep(l[1]))
+    if l[0] == "REL":
+        return ("REL", _strip_abs_deep(l[1]), _strip_abs_deep(l[2]))
+    return l
+
+
+def _canon_text(t: Term) -> str:
+    """Text of a term with location wrappers removed, the guards of choices dropped and symbol numbers erased (for comparing two
+    executions of different functions)."""
+
+    def fix(x: Term):
+        if x[0] == "call" and x[1][0] == "lib" and x[1][1] in ("pathlib.Path", "pathlib.PurePath", "os.fspath") and len(x[2]) == 1:
+            return x[2][0]
+        if x[0] == "call" and x[1] == ("builtin", "str") and len(x[2]) == 1:
+            return x[2][0]
+        if x[0] == "call" and x[1] == ("lib", "os.path.dirname") and len(x[2]) == 1:
+            return ("attr", x[2][0], "parent")
+        if x[0] == "phi":
+            vals = sorted({re.sub(r"#\d+", "#", show(v)) for _g, v in x[1]})
+            return ("unk", "one of " + " | ".join(vals), 0)
+        if x[0] == "comp":
+            return ("comp", x[1], x[2], tuple((tg, it, ()) for tg, it, _c in x[3]), 0)
+        return None
+
+    return re.sub(r"#\d+", "#", show(rewrite(t, fix)))
+
+
+API_EVENTS = {"Parser", "parse", "Config", "ImportConverter", "convert", "ExternalImportFilter", "filter", "NetworkxGraph", "EvaluableArchitectureGraph", "ImporteeModuleCalculator", "calculate_importee_modules"}
+
+
+def rule_r1(repo: Repo, res: Result) -> None:
     T = types_of(repo)
-    # ---- R1
     ge = repo.func(ENTRY, "get_evaluable_architecture")
     gm = repo.func(ENTRY, "get_evaluable_architecture_for_module_objects")
-    calls = [c for c in calls_in(gm.node) if dotted(c.func) == ge.name]
-    if len(calls) != 1:
-        raise AnalysisError("module-object entry point: delegation call not found")
-    call = calls[0]
-    rets = [s for s in own_nodes(gm.node) if isinstance(s, ast.Return)]
-    ok = len(rets) == 1 and rets[0].value is call and not conds(gm, call)
-    res.add("C04.R1", f"{gm.relpath}::{gm.qualname}::pure delegation", ok, "returns get_evaluable_architecture(...) unconditionally" if ok else "the module-object entry point is not an unconditional delegation to the path entry point", where(gm, call), kind="structural")
-    bound: dict[str, ast.expr] = {}
-    for i, a in enumerate(call.args):
-        if i < len(ge.param_names):
-            bound[ge.param_names[i]] = a
-    for k in call.keywords:
-        if k.arg:
-            bound[k.arg] = k.value
-
-    def resolve(e: ast.expr) -> ast.expr:
-        if isinstance(e, ast.Name) and e.id not in gm.param_names:
-            a = [s for s in own_nodes(gm.node) if (isinstance(s, ast.Assign) and dotted(s.targets[0]) == e.id) or (isinstance(s, ast.AnnAssign) and dotted(s.target) == e.id)]
-            if len(a) == 1:
-                return a[0].value
-        return e
-
-    for i, pname in enumerate(ge.param_names):
-        a = bound.get(pname)
-        if i < 2:
-            v = resolve(a) if a is not None else None
-            want_src = gm.param_names[i]
-            ok = isinstance(v, ast.Call) and dotted(v.func) in ("os.path.dirname", "dirname") and len(v.args) == 1 and norm(v.args[0]) == f"{want_src}.__file__"
-            res.add("C04.R1", f"{gm.relpath}::{gm.qualname}::{pname} <- dirname({want_src}.__file__)", ok, f"{pname} = directory of {want_src}" if ok else f"`{pname}` receives `{norm(v) if v is not None else 'nothing'}` instead of os.path.dirname({want_src}.__file__)", where(gm, call), kind="flow")
-        else:
-            ok = a is not None and dotted(a) == pname and pname in gm.param_names
-            same_default = True
-            if pname in gm.param_names:
-                d1 = T._default_of(gm, next(p for p in gm.params if p.arg == pname))
-                d2 = T._default_of(ge, next(p for p in ge.params if p.arg == pname))
-                same_default = (norm(d1) if d1 is not None else None) == (norm(d2) if d2 is not None else None)
-            res.add("C04.R1", f"{gm.relpath}::{gm.qualname}::{pname} forwarded", ok and same_default, f"{pname} forwarded unchanged (same default)" if ok and same_default else (f"`{pname}` of the path entry point receives `{norm(a) if a is not None else 'its default'}` from the module-object entry point" if not ok else f"default of `{pname}` differs between the two entry points"), where(gm, call), kind="flow")
-    gen = repo.func(GG, "generate_graph")
-    gcalls = [c for c in calls_in(ge.node) if dotted(c.func) == gen.name]
-    if len(gcalls) != 1:
-        raise AnalysisError("get_evaluable_architecture: generate_graph call not found")
-    gb: dict[str, ast.expr] = {}
-    for i, a in enumerate(gcalls[0].args):
-        if i < len(gen.param_names):
-            gb[gen.param_names[i]] = a
-    for k in gcalls[0].keywords:
-        if k.arg:
-            gb[k.arg] = k.value
-    for src, dst in GEN_ROLES:
-        a = gb.get(dst)
-        ok = a is not None and dotted(a) == src
-        res.add("C04.R1", f"{ge.relpath}::{ge.qualname}::{dst} <- {src}", ok, f"generate_graph({dst}={src})" if ok else f"generate_graph receives `{norm(a) if a is not None else 'nothing'}` as `{dst}` instead of `{src}`", where(ge, gcalls[0]), kind="flow")
-    # how the local roles are built
-    for var, builder, arg in (("root_as_path", "Path", "root_path"), ("module_as_path", "Path", "module_path")):
-        a = [s for s in own_nodes(ge.node) if isinstance(s, ast.Assign) and dotted(s.targets[0]) == var]
-        ok = len(a) == 1 and isinstance(a[0].value, ast.Call) and dotted(a[0].value.func) == builder and dotted(a[0].value.args[0]) == arg
-        res.add("C04.R1", f"{ge.relpath}::{ge.qualname}::{var} = Path({arg})", ok, f"{var} is the Path of {arg}" if ok else f"`{var}` is not Path({arg})", where(ge, ge.node), kind="flow")
-    a = [s for s in own_nodes(ge.node) if isinstance(s, ast.Assign) and dotted(s.targets[0]) == "path_diff_between_root_and_module"]
-    ok = len(a) == 1 and "module_as_path.relative_to(root_as_path)" in norm(a[0].value, 300) and ".replace(os.sep, '.')" in norm(a[0].value, 300)
-    res.add("C04.R1", f"{ge.relpath}::{ge.qualname}::path difference", ok, "path difference = module_path relative to root_path in dotted notation" if ok else "the path difference is not str(module_path.relative_to(root_path)) with separators replaced by '.'", where(ge, ge.node), kind="structural")
-    # ---- R2
-    n = scan.run_registration(repo, res, "C04.R2")
-    res.floor("C04.R2", 7, n)
-    # ---- R3
-    pc = repo.cls(PARSER, "Parser")
-    gmn = pc.methods.get("_get_module_name")
-    p = gmn.param_names[1]
-    rets = [s for s in own_nodes(gmn.node) if isinstance(s, ast.Return)]
-    rel = [s for s in own_nodes(gmn.node) if isinstance(s, ast.Assign) and isinstance(s.value, ast.Call) and is_attr_call(s.value, "relative_to")]
-    ok_rel = len(rel) == 1 and dotted(rel[0].value.func.value) == p and norm(rel[0].value.args[0]) == "self._source_root"
-    res.add("C04.R3", f"{gmn.relpath}::{gmn.qualname}::relative to the source root", ok_rel, "names are computed from the path relative to the source root" if ok_rel else "module names are not computed from path.relative_to(source_root)", where(gmn, gmn.node), kind="structural")
-    root_ret = [r for r in rets if norm(r.value) == "self._source_root.name"]
-    ok = len(root_ret) == 1 and ok_rel and implies(guard_formula(gmn, root_ret[0]), truth(gmn, f"str({dotted(rel[0].targets[0])}) == '.'")) if rel else False
-    res.add("C04.R3", f"{gmn.relpath}::{gmn.qualname}::root maps to its own name", ok, "the root directory itself is named by its directory name" if ok else "the source root is not named by its own directory name exactly when the relative path is '.'", where(gmn, gmn.node), kind="dominance")
-    other = [r for r in rets if r not in root_ret]
-    ok = False
-    if len(other) == 1 and isinstance(other[0].value, ast.JoinedStr):
-        parts = other[0].value.values
-        texts = [norm(v.value) if isinstance(v, ast.FormattedValue) else repr(v.value) for v in parts]
-        if len(parts) == 3 and texts[0] == "self._source_root.name" and texts[1] == "'.'":
-            dv = parts[2].value
-            chain = []
-            cur = dv
-            for _ in range(4):
-                if isinstance(cur, ast.Name):
-                    asg = [s for s in own_nodes(gmn.node) if isinstance(s, ast.Assign) and dotted(s.targets[0]) == cur.id]
-                    if len(asg) != 1:
-                        break
-                    chain.append(norm(asg[0].value, 200))
-                    nxt = [x for x in ast.walk(asg[0].value) if isinstance(x, ast.Name) and x.id != "os" and x.id != "str"]
-                    cur = nxt[0] if nxt else None
-                else:
-                    break
-            text = " <- ".join(chain)
-            ok = ".replace(os.sep, '.')" in text and ".with_suffix('')" in text and (dotted(rel[0].targets[0]) in text if rel else False)
-    res.add("C04.R3", f"{gmn.relpath}::{gmn.qualname}::naming shape", ok, "name = root directory name + '.' + relative path without suffix, separators replaced by '.'" if ok else "the module name is not `<root name>.<relative path without suffix, os.sep -> '.'>`", where(gmn, gmn.node), kind="structural")
-    # ---- R4
-    g = repo.cls(NXGRAPH, "NetworkxGraph")
-    aam = g.methods.get("_add_all_modules_as_nodes")
-    aeh = g.methods.get("_add_edges_within_module_hierarchy")
-    if aam is None or aeh is None:
-        raise AnalysisError("NetworkxGraph._add_all_modules_as_nodes / _add_edges_within_module_hierarchy not found")
-    lp = [l for l in own_nodes(aam.node) if isinstance(l, ast.For) and norm(l.iter) == "self._all_modules"]
-    ok = len(lp) == 1 and not any(isinstance(x, (ast.Break, ast.Continue, ast.If)) for x in ast.walk(lp[0]))
-    if ok:
-        mv = dotted(lp[0].target)
-        cn = [c for c in ast.walk(lp[0]) if isinstance(c, ast.Call) and is_attr_call(c, "_create_node") and dotted(c.args[0]) == mv]
-        he = [c for c in ast.walk(lp[0]) if isinstance(c, ast.Call) and is_attr_call(c, aeh.name) and isinstance(c.args[0], ast.Call) and dotted(c.args[0].func) == "get_parent_modules" and dotted(c.args[0].args[0]) == mv and dotted(c.args[1]) == mv]
-        ok = len(cn) == 1 and len(he) == 1
-    res.add("C04.R4", f"{aam.relpath}::{aam.qualname}::every module: node + ancestors", ok, "every scanned module becomes a node and is linked to all its ancestors" if ok else "not every scanned module becomes a node linked to get_parent_modules(module)", where(aam, aam.node), kind="structural")
-    zl = [l for l in own_nodes(aeh.node) if isinstance(l, ast.For) and isinstance(l.iter, ast.Call) and dotted(l.iter.func) == "zip"]
-    ok = False
-    if len(zl) == 1:
-        allv = None
-        for s in own_nodes(aeh.node):
-            if isinstance(s, ast.Assign) and isinstance(s.value, ast.BinOp) and norm(s.value) == f"{aeh.param_names[1]} + [{aeh.param_names[2]}]":
-                allv = dotted(s.targets[0])
-        z = zl[0].iter
-        pair = [norm(a) for a in z.args] == [f"{allv}[:-1]", f"{allv}[1:]"] if allv else False
-        tv = [dotted(x) for x in zl[0].target.elts] if isinstance(zl[0].target, ast.Tuple) else []
-        cn = [c for c in ast.walk(zl[0]) if isinstance(c, ast.Call) and is_attr_call(c, "_create_node") and tv and dotted(c.args[0]) == tv[0]]
-        ce = [c for c in ast.walk(zl[0]) if isinstance(c, ast.Call) and is_attr_call(c, "_create_edge") and tv and [dotted(a) for a in c.args[:2]] == tv and any(k.arg == "inherits" and isinstance(k.value, ast.Constant) and k.value.value is True for k in c.keywords)]
-        ok = pair and len(cn) == 1 and len(ce) == 1 and not any(isinstance(x, (ast.Break, ast.Continue, ast.If)) for x in ast.walk(zl[0]))
-    res.add("C04.R4", f"{aeh.relpath}::{aeh.qualname}::consecutive parent->child hierarchy edges", ok, "each consecutive (ancestor, descendant) pair gets a node and a hierarchy edge" if ok else "ancestors are not linked pairwise with inherits=True edges (and nodes) for the whole chain", where(aeh, aeh.node), kind="structural")
-    # who may create nodes: scanned modules and importers, never imported names
-    init = g.methods.get("__init__")
-    construction = [f for f in reachable_funcs(repo, [init], byname=False) if f.cls is g]
-
-    def sources(f: FuncInfo, e: ast.expr):
-        if isinstance(e, ast.Attribute) and dotted(e) == "self._all_modules":
-            return {"SCANNED"}
-        if isinstance(e, ast.Call) and isinstance(e.func, ast.Attribute) and e.func.attr in ("importer", "importer_parent_modules") and not e.args:
-            return {"IMPORTER"}
-        if isinstance(e, ast.Call) and isinstance(e.func, ast.Attribute) and e.func.attr in ("importee", "importee_parent_modules") and not e.args:
-            return {"IMPORTEE"}
-        return None
-
-    def node_transfer(f: FuncInfo, call_: ast.Call, names, args, recv, kwargs):
-        # the flattening helper maps a name to (a prefix of) itself: keep the argument's provenance, context-sensitively
-        if isinstance(call_.func, ast.Attribute) and call_.func.attr == "_flatten_graph_node" and args:
-            return set(args[0])
-        return None
-
-    flow = Flow(repo, T, Spec(sources=sources, transfer=node_transfer, objects_carry=False, scope=lambda f: f in construction))
-    k = 0
-    for f in construction:
-        for c in calls_in(f.node):
-            arg = None
-            if is_attr_call(c, "add_node") and "_graph" in norm(c.func.value) and c.args:
-                arg = c.args[0]
-            elif is_attr_call(c, "_create_node") and c.args:
-                arg = c.args[0]
-            if arg is None:
+    # ---- the module-object entry point
+    sx = SymX(repo, T, keep=lambda f: f.fq == ge.fq)
+    tr = sx.run(gm)
+    calls = [e for e in tr.events if e.kind == "call" and e.func == ("fn", ge.fq)]
+    tag = f"{gm.relpath}::{gm.qualname}"
+    if calls:
+        rets = [t for _pc, t in tr.returns]
+        results = [c.result for c in calls]
+        ok = simplify(f_or([c.guard for c in calls])) == TRUE and all(t in results for t in rets) and bool(rets)
+        res.add("C04.R1", f"{tag}::pure delegation", ok, "returns get_evaluable_architecture(...) unconditionally" if ok else "the module-object entry point is not an unconditional delegation to the path entry point", where(calls[0].fi, calls[0].node), kind="structural")
+        for n_, call in enumerate(calls):
+            suffix = "" if len(calls) == 1 else f" [call {n_ + 1}: {norm(call.node, 50)}]"
+            bound = _bind_args(ge, call)
+            if "*" in bound or "**" in bound:
+                res.undecide("C04.R1", f"{tag}::forwarding{suffix}", f"the delegation passes its arguments as `{show(bound.get('*') or bound.get('**'), 60)}`: cannot tell which option receives what", where(call.fi, call.node))
                 continue
-            tags = set(flow.tags(arg))
-            k += 1
-            ok = "IMPORTEE" not in tags
-            res.add("C04.R4", repo.key(f, stmt_of(c)) + f" [node from {sorted(tags) or ['?']}]", ok, "nodes are created from scanned modules / importers and their ancestors" if ok else f"`{norm(c, 60)}` creates a node from an *imported* name: names that are not files or directories of the scanned tree (relative import parts, functions, classes) become modules", where(f, c), kind="flow")
-    res.floor("C04.R4.nodes", 3, k)
-    # ---- R5
-    gap = repo.func(GG, "_get_absolute_import_prefix")
-    rets = [s for s in own_nodes(gap.node) if isinstance(s, ast.Return)]
-    empty = [r for r in rets if isinstance(r.value, ast.Constant) and r.value.value == ""]
-    main = [r for r in rets if r not in empty]
-    ok = len(empty) == 1 and len(main) == 1 and "module_path.parent.relative_to(root_path.parent)" in norm(main[0].value, 300) and ".replace(os.sep, '.')" in norm(main[0].value, 300)
-    res.add("C04.R5", f"{gap.relpath}::{gap.qualname}::prefix source", ok, "absolute-import prefix = module_path.parent relative to root_path.parent, dotted" if ok else f"the absolute-import prefix is `{norm(main[0].value, 100) if main else '?'}`: not module_path.parent relative to root_path.parent in dotted notation", where(gap, gap.node), kind="structural")
-    if empty:
-        gf = guard_formula(gap, empty[0])
-        ok = any("_actual_difference" in a for a in map(str, [gf])) or bool(conds(gap, empty[0]))
-        res.add("C04.R5", f"{gap.relpath}::{gap.qualname}::no prefix without a path difference", ok, "no prefix when root_path equals module_path" if ok else "the empty prefix is returned unconditionally", where(gap, empty[0]), nontrivial=False)
-    # strip-family calls with a multi-character / computed argument remove a character *set*, not a prefix or suffix
-    s_n = 0
+            for i, pname in enumerate(ge.param_names):
+                a = bound.get(pname)
+                if i < 2:
+                    src = gm.param_names[i] if i < len(gm.param_names) else "?"
+                    want = ("PARENT", ("attr", ("param", src), "__file__"))
+                    got = _strip_abs_deep(loc(a)) if a is not None else None
+                    ok = got == want
+                    if not ok and got is not None and not _plain_loc(got):
+                        res.undecide("C04.R1", f"{tag}::{pname} <- dirname({src}.__file__){suffix}", f"cannot read `{show(a, 120)}` as a directory", where(call.fi, call.node))
+                        continue
+                    res.add("C04.R1", f"{tag}::{pname} <- dirname({src}.__file__){suffix}", ok, f"{pname} = directory of {src}" if ok else f"`{pname}` receives `{show_loc(got) if got is not None else 'nothing'}` instead of the directory of {src}.__file__", where(call.fi, call.node), kind="flow")
+                else:
+                    ok = a == ("param", pname) and pname in gm.param_names
+                    if a is not None and a[0] == "boolop" and a[1] == "or" and a[2][0] == ("param", pname) and all(x[0] in ("const", "lib", "tuple") for x in a[2][1:]):
+                        res.add("C04.R1", f"{tag}::{pname} forwarded{suffix}", False, f"`{pname}` is forwarded as `{show(a, 80)}`: an empty value given to the module-object entry point is replaced, the path entry point would have used it as it is", where(call.fi, call.node), kind="flow")
+                        continue
+                    if not ok and a is not None and a[0] not in ("param", "const", "attr", "tuple"):
+                        res.undecide("C04.R1", f"{tag}::{pname} forwarded{suffix}", f"cannot tell whether `{show(a, 120)}` is the option `{pname}` unchanged", where(call.fi, call.node))
+                        continue
+                    same_default = pname not in gm.param_names or _default(gm, pname) == _default(ge, pname)
+                    if a is None and pname in gm.param_names and _default(ge, pname) is not None:
+                        detail = f"`{pname}` of the module-object entry point is not forwarded: the path entry point always uses its default"
+                    elif not ok:
+                        detail = f"`{pname}` of the path entry point receives `{show(a, 80) if a is not None else 'its default'}` from the module-object entry point"
+                    elif not same_default:
+                        detail = f"default of `{pname}` differs between the two entry points"
+                    else:
+                        detail = f"{pname} forwarded unchanged (same default)"
+                    res.add("C04.R1", f"{tag}::{pname} forwarded{suffix}", ok and same_default, detail, where(call.fi, call.node), kind="flow")
+    else:
+        # no direct delegation: both entry points must perform the same calls of the scanning / graph API, with
+        # root_path := dirname(root_module.__file__), module_path := dirname(module.__file__)
+        _r1_same_api_calls(repo, res, T, ge, gm)
+    # ---- the path entry point: every option reaches the consumer of its role
+    sx2 = SymX(repo, T)
+    tr2 = sx2.run(ge)
+    tag = f"{ge.relpath}::{ge.qualname}"
+    p = ge.param_names
+    want_names = ["root_path", "module_path", "exclusions", "exclude_external_libraries", "level_limit", "regex_exclusions", "external_exclusions", "regex_external_exclusions"]
+    if p != want_names:
+        res.undecide("C04.R1", f"{tag}::signature", f"the public signature changed to {p}: the roles of the options are not known", where(ge, ge.node))
+        return
+
+    def single(name: str, what: str) -> Event | None:
+        evs = [e for e in tr2.events if e.kind == "call" and e.name == name]
+        if len(evs) != 1:
+            res.undecide("C04.R1", f"{tag}::{what}", f"{len(evs)} `{name}` call(s) reached from the path entry point (expected exactly one)", where(ge, ge.node))
+            return None
+        return evs[0]
+
+    parser_cls = repo.cls(scan.PARSER, "Parser")
+    init = repo.lookup_method(parser_cls, "__init__")
+    ctor = single("Parser", "scanner construction")
+    if ctor is not None and init is not None:
+        b = _bind_args(init, ctor)
+        names = init.param_names[1:]
+        root_arg = b.get(names[1]) if len(names) > 1 else None
+        got = loc(root_arg) if root_arg is not None else None
+        ok = got == ("param", "root_path")
+        if not ok and _has_lost_parts(root_arg):
+            res.undecide("C04.R1", f"{tag}::source root of the scan <- root_path", f"cannot follow how the scanner's source root `{show(root_arg, 100)}` is computed", where(ctor.fi, ctor.node))
+        else:
+            res.add("C04.R1", f"{tag}::source root of the scan <- root_path", ok, "module names are computed relative to root_path" if ok else f"the scanner's source root is `{show_loc(got) if got is not None else '?'}`, not root_path: module names no longer start at the root directory", where(ctor.fi, ctor.node), kind="flow")
+        filt = b.get(names[0]) if names else None
+        pl = _param_leaves(filt, ge) if filt is not None else set()
+        _options_obligation(res, f"{tag}::file filter <- exclusions / regex_exclusions", pl, {"exclusions", "regex_exclusions"}, "the scan filter", ctor, filt)
+        start = [e for e in tr2.events if e.kind == "call" and e.name == "parse" and e.recv == ctor.result]
+        if len(start) == 1:
+            got = loc(start[0].arg(0)) if start[0].arg(0) is not None else None
+            ok = got == ("param", "module_path")
+            if not ok and _has_lost_parts(start[0].arg(0)):
+                res.undecide("C04.R1", f"{tag}::scan start <- module_path", f"cannot follow how the start of the scan `{show(start[0].arg(0), 100)}` is computed", where(start[0].fi, start[0].node))
+            else:
+                res.add("C04.R1", f"{tag}::scan start <- module_path", ok, "the scan starts at module_path" if ok else f"the scan starts at `{show_loc(got) if got is not None else '?'}`, not at module_path", where(start[0].fi, start[0].node), kind="flow")
+        else:
+            res.undecide("C04.R1", f"{tag}::scan start", f"{len(start)} `parse` call(s) on the scanner", where(ge, ge.node))
+    ext = single("ExternalImportFilter", "external import filter")
+    if ext is not None:
+        a0 = ext.arg(0, "exclude_external_libraries")
+        ok = a0 == ("param", "exclude_external_libraries")
+        res.add("C04.R1", f"{tag}::external filter flag <- exclude_external_libraries", ok, "the flag is forwarded" if ok else f"the external-import filter receives `{show(a0, 60) if a0 is not None else '?'}` as its flag", where(ext.fi, ext.node), kind="flow")
+        a2 = ext.arg(2, "external_exclusions")
+        pl = _param_leaves(a2, ge) if a2 is not None else set()
+        _options_obligation(res, f"{tag}::external filter patterns <- external_exclusions / regex_external_exclusions", pl, {"external_exclusions", "regex_external_exclusions"}, "the patterns of the external-import filter", ext, a2)
+    g = single("NetworkxGraph", "graph construction")
+    if g is not None:
+        a2 = g.arg(2, "level_limit")
+        pl = _param_leaves(a2, ge) if a2 is not None else set()
+        ok = "level_limit" in pl and pl <= {"level_limit", "root_path", "module_path"}
+        if not ok and ("level_limit" in pl or _has_lost_parts(a2)):
+            res.undecide("C04.R1", f"{tag}::graph depth <- level_limit", f"cannot follow how the graph's level limit `{show(a2, 80) if a2 is not None else '?'}` is computed", where(g.fi, g.node))
+        else:
+            res.add("C04.R1", f"{tag}::graph depth <- level_limit", ok, "the level limit (shifted by the root/module offset) reaches the graph" if ok else f"the graph's level limit is built from {sorted(pl) or 'no option'}", where(g.fi, g.node), kind="flow")
+        a0 = g.arg(0, "all_modules")
+        ok = a0 is not None and any(x[0] == "mcall" and x[2] == "parse" for x in subterms(a0))
+        if not ok and _has_lost_parts(a0):
+            res.undecide("C04.R1", f"{tag}::graph modules <- scan result", f"cannot follow where the module list `{show(a0, 80)}` of the graph comes from", where(g.fi, g.node))
+        else:
+            res.add("C04.R1", f"{tag}::graph modules <- scan result", ok, "the graph is built from the scanned modules" if ok else "the module list of the graph does not come from the scan", where(g.fi, g.node), kind="flow")
+
+
+def _has_lost_parts(t: Term | None) -> bool:
+    """The value contains parts the executor could not follow: loop-carried values, results of calls it did not enter, fields of
+    objects whose construction it did not see. A *negative* statement about such a value ("is not computed from ...") is unfounded."""
+    if t is None:
+        return False
+    for x in subterms(t):
+        if x[0] in ("unk", "loopvar"):
+            return True
+        if x[0] == "attr" and x[1][0] in ("new", "call", "mcall", "elem") and x[2].startswith("_"):
+            return True  # a private field of an object built elsewhere
+        if x[0] in ("call", "mcall") and (x[1][0] == "fn" if x[0] == "call" else False):
+            return True  # a repository function that was not entered
+    return False
+
+
+def _options_obligation(res: Result, key: str, got: set[str], want: set[str], what: str, e: Event, value: Term | None = None) -> None:
+    """The value is computed from exactly the options `want`. An option that is missing is a violation; additional options
+    (e.g. both pattern kinds converted by one shared comprehension) cannot be judged on the level of 'depends on'."""
+    if got == want:
+        res.add("C04.R1", key, True, f"{what} is built from {' / '.join(sorted(want))}", where(e.fi, e.node), kind="flow")
+    elif not want <= got and _has_lost_parts(value):
+        res.undecide("C04.R1", key, f"cannot follow how {what} is computed (`{show(value, 100)}`)", where(e.fi, e.node))
+    elif not want <= got:
+        res.add("C04.R1", key, False, f"{what} is built from {sorted(got) or 'no option'} instead of {' / '.join(sorted(want))}", where(e.fi, e.node), kind="flow")
+    else:
+        res.undecide("C04.R1", key, f"{what} depends on {sorted(got)}: cannot tell whether the other options only take part in a shared computation", where(e.fi, e.node))
+
+
+def _r1_same_api_calls(repo: Repo, res: Result, T, ge: FuncInfo, gm: FuncInfo) -> None:
+    """Without a direct delegation: the path entry point, executed with root_path := dirname(root_module.__file__) and
+    module_path := dirname(module.__file__), must perform the same calls of the scanning / graph API as the module-object one."""
+    tag = f"{gm.relpath}::{gm.qualname}"
+    a = SymX(repo, T).run(gm)
+    args = {}
+    for i, pname in enumerate(ge.param_names):
+        if i < 2 and i < len(gm.param_names):
+            args[pname] = ("call", ("lib", "os.path.dirname"), (("attr", ("param", gm.param_names[i]), "__file__"),), ())
+    b = SymX(repo, T).run(ge, args=args)
+
+    def sig(tr: Trace) -> list[str]:
+        out = []
+        for e in tr.events:
+            if e.kind == "call" and e.name in API_EVENTS:
+                out.append(f"{e.name}({', '.join(_canon_text(x) for x in e.args)})")
+        return out
+
+    sa, sb = sig(a), sig(b)
+    if not sa or not sb:
+        res.undecide("C04.R1", f"{tag}::delegation", "the module-object entry point neither calls the path entry point nor reaches the scanning API", where(gm, gm.node))
+        return
+    ok = sa == sb
+    diff = ""
+    for x, y in itertools.zip_longest(sa, sb, fillvalue="nothing"):
+        if x != y:
+            i = next((k for k in range(min(len(x), len(y))) if x[k] != y[k]), min(len(x), len(y)))
+            diff = f"`{x.split('(')[0]}`: `...{x[max(0, i - 60):i + 60]}...` vs `...{y[max(0, i - 60):i + 60]}...`"
+            break
+    res.add("C04.R1", f"{tag}::same scanning calls as the path entry point", ok, "both entry points perform the same calls, with dirname(__file__) of the module objects as paths" if ok else f"the two entry points differ in the call of {diff}", where(gm, gm.node), kind="flow")
+
+
+# =========================================================================== R3
+
+
+def _path_vocabulary(d, leaves_ok: tuple, names_of: tuple = ()) -> bool:
+    """The dotted name consists only of path components of locations built from the given leaves (and `.name` of `names_of`): it
+    can be compared with the expected name; anything else (slices of split strings, unknown helpers) cannot."""
+
+    def loc_ok(l: Term) -> bool:
+        if l in leaves_ok:
+            return True
+        if l[0] in ("PARENT", "NOSUF", "ABS"):
+            return loc_ok(l[1])
+        if l[0] == "REL":
+            return loc_ok(l[1]) and loc_ok(l[2])
+        return False
+
+    for kind, v in d:
+        if kind == "parts":
+            if not loc_ok(v):
+                return False
+        elif kind == "item":
+            if not (v[0] == "attr" and v[2] in ("name", "stem", FIRST_PART) and (loc_ok(v[1]) or v[1] in names_of)):
+                return False
+        else:
+            return False
+    return True
+
+
+def _root_tests(sx: SymX, fs, rel: Term, root: Term | None = None) -> dict[str, bool]:
+    """Atoms of the formulas `fs` that test 'the path is the source root itself' -> polarity (True: atom true means root)."""
+    out: dict[str, bool] = {}
+    for key in sorted({a for f in fs for a in atoms_of(f)}):
+        t = sx.atoms.get(key)
+        if t is None:
+            continue
+        if t[0] == "cmp" and t[1] == "==":
+            a, b = t[2], t[3]
+            c, o = (a, b) if a[0] == "const" else (b, a)
+            if is_const(c, ".") and loc(o) == rel:
+                out[key] = True
+            elif loc(a) == rel and loc(b) == ("const", ".") or loc(b) == rel and loc(a) == ("const", "."):
+                out[key] = True
+            elif {strip_abs(loc(a)), strip_abs(loc(b))} == {strip_abs(rel[1]), strip_abs(root if root is not None else rel[2])}:
+                out[key] = True
+        else:
+            l = loc(t)
+            if l in (("attr", rel, "parts"), ("attr", rel, "name"), ("attr", rel, "stem")):
+                out[key] = False  # the empty relative path `.` has no parts and an empty name
+            elif t[0] == "call" and t[1] == ("builtin", "len") and len(t[2]) == 1 and loc(t[2][0]) == ("attr", rel, "parts"):
+                out[key] = False
+    return out
+
+
+def rule_r3(repo: Repo, res: Result) -> None:
+    info = scan.analyse(repo)
+    sx = info.sx
+    done = 0
+    for reg in info.regs:
+        e = reg.event
+        key = repo.key(e.fi, stmt_of(e.node))
+        wh = where(e.fi, e.node)
+        if reg.path is None:
+            continue  # reported by R2
+        el = reg.element
+        # the relative location the name is built from
+        rels = {l for x in subterms(el) for l in [loc(x)] if l[0] == "REL" and strip_abs(l[1]) == strip_abs(loc(reg.path))}
+        if len(rels) != 1:
+            done += 1
+            res.undecide("C04.R3", key + " [name relative to the source root]", f"cannot see how the registered name `{show(el, 120)}` is computed from the path relative to the source root", wh)
+            continue
+        rel = rels.pop()
+        from_walk = rel[1][0] != "ABS"
+        res.add("C04.R3", key + " [name of the visited path]", from_walk, "the name is computed from the path as it was found by the walk" if from_walk else f"the module name is computed from the resolved path `{show_loc(rel[1])}` instead of the path found by the walk: a symlinked file is registered under its target's name and a relative root_path makes relative_to fail", wh, kind="flow")
+        init = repo.lookup_method(info.parse.cls, "__init__") if info.parse.cls else None
+        root_param = f"{info.parse.cls.name}.{init.param_names[2]}" if init is not None and len(init.param_names) > 2 else None
+        base_loc = rel[2]
+        root = base_loc[1] if base_loc[0] == "PARENT" else base_loc  # `p.relative_to(root.parent)` starts with the root's name as well
+        root = strip_abs(root)
+        ok = root == ("param", root_param) if info.ctor_heap else root[0] == "attr" and root[1] == ("param", info.parse.param_names[0])
+        if not ok and _has_lost_parts(root):
+            res.undecide("C04.R3", key + " [relative to the source root]", f"cannot follow where `{show_loc(base_loc)}` comes from", wh)
+            continue
+        res.add("C04.R3", key + " [relative to the source root]", ok, "names are computed from the path relative to the scanner's source root" if ok else f"module names are computed relative to `{show_loc(base_loc)}`, not to the source root handed to the scanner", wh, kind="structural")
+        alts = alternatives(el)
+        want = canon([("parts", ("NOSUF", rel))] if base_loc[0] == "PARENT" else [("item", ("attr", root, "name")), ("parts", ("NOSUF", rel))])
+        want_root = [("item", ("attr", root, "name"))]
+        # the general form without suffix removal, used only when the path is the root (its relative path has no parts), is the root's name
+        tests0 = _root_tests(sx, [g for g, _ in alts], rel, root)
+        unsuffixed = canon([("parts", rel)] if base_loc[0] == "PARENT" else [("item", ("attr", root, "name")), ("parts", rel)])
+
+        def names_root(g: Formula, v: Term) -> bool:
+            d_ = dotted(v)
+            if d_ == want_root:
+                return True
+            if d_ != unsuffixed or not tests0 or g == TRUE:
+                return False
+            g_ = rename_atoms(g, lambda k: (atom("ROOT") if tests0[k] else f_not(atom("ROOT"))) if k in tests0 else None)
+            return implies(g_, atom("ROOT"))
+
+        general = [(g, v) for g, v in alts if not names_root(g, v)]
+        rootcase = [(g, v) for g, v in alts if names_root(g, v)]
+        done += 1
+        # ---- general shape
+        bad = [(g, v) for g, v in general if dotted(v) != want]
+        readable = True
+        if not general:
+            res.add("C04.R3", key + " [naming shape]", False, "every path is named by the root directory's name alone", wh, kind="structural")
+        elif bad:
+            g, v = bad[0]
+            d = dotted(v)
+            if d is None:
+                readable = False
+                res.undecide("C04.R3", key + " [naming shape]", f"cannot read `{show(v, 160)}` as a dotted name", wh)
+            elif not _path_vocabulary(d, (rel[1], root, strip_abs(rel[1])), (root,)):
+                readable = False
+                res.undecide("C04.R3", key + " [naming shape]", f"cannot compare the name `{show_dotted(d)}` with `{show_dotted(want)}`", wh)
+            else:
+                if any(k_ == "item" and v_[0] == "attr" and v_[2] == FIRST_PART for k_, v_ in d):
+                    why = "cuts the file name at its first '.', which is not where the suffix starts (`a.b.py`)"
+                elif not d or d[0] != want[0]:
+                    why = "does not start with the root directory's name"
+                else:
+                    why = "is not the path relative to the root with the suffix removed, one component per path part"
+                res.add("C04.R3", key + " [naming shape]", False, f"the module name is `{show_dotted(d)}`: it {why} (expected `{show_dotted(want)}`)", wh, kind="structural")
+        else:
+            res.add("C04.R3", key + " [naming shape]", True, "name = root directory name + '.' + relative path without suffix, one component per path part", wh, kind="structural")
+        # ---- the root itself
+        tests = _root_tests(sx, [g for g, _ in alts], rel, root)
+
+        def as_root(f: Formula) -> Formula:
+            return rename_atoms(f, lambda k: (atom("ROOT") if tests[k] else f_not(atom("ROOT"))) if k in tests else None)
+
+        if not readable:
+            continue
+        if not rootcase:
+            ok = False
+            detail = "the source root itself is not named by its own directory name (no case for it: the general form fails, appends an empty component or removes a suffix from the directory name)"
+        else:
+            g_root = as_root(f_or([g for g, _v in rootcase]))
+            g_gen = as_root(f_or([g for g, _v in general])) if general else FALSE
+            known = as_root(reg.known)
+            ok = implies(f_and([known, atom("ROOT")]), g_root) and implies(f_and([known, g_root]), atom("ROOT")) and implies(f_and([known, g_gen]), f_not(atom("ROOT")))
+            unread = sorted((atoms_of(g_root) | atoms_of(g_gen)) - atoms_of(known) - {"ROOT"})
+            if not ok and (unread or not tests):
+                res.undecide("C04.R3", key + " [root maps to its own name]", f"cannot read `{(unread or sorted(atoms_of(g_root)))[0][:140]}` as the test 'the path is the source root'", wh)
+                continue
+            detail = "the root directory itself is named by its directory name" if ok else f"the source root is not named by its own directory name exactly when the relative path is empty (root case under `{show_formula(g_root)[:120]}`)"
+        res.add("C04.R3", key + " [root maps to its own name]", ok, detail, wh, kind="dominance")
+    res.floor("C04.R3", 1, done)
+
+
+# =========================================================================== R4
+
+
+def _slice_of(t: Term):
+    """(sequence, lower, upper) of `s[lo:hi]` with constant bounds (None when absent); (t, None, None) for a plain sequence."""
+    if t[0] == "slice" and is_const(t[4], None) and all(x[0] == "const" and (x[1] is None or isinstance(x[1], int)) for x in (t[2], t[3])):
+        return _mapped_source(t[1]), t[2][1], t[3][1]
+    if t[0] == "call" and t[1] == ("lib", "itertools.islice") and len(t[2]) in (2, 3) and all(x[0] == "const" and (x[1] is None or isinstance(x[1], int)) for x in t[2][1:]):
+        if len(t[2]) == 2:
+            return _mapped_source(t[2][0]), None, t[2][1][1]
+        return _mapped_source(t[2][0]), t[2][1][1], t[2][2][1]
+    return _mapped_source(t), None, None
+
+
+def _mapped_source(t: Term) -> Term:
+    """`[f(x) for x in s]` (no filter) has one element per element of `s`, in the same order: positions in it are positions in s."""
+    u = t
+    while True:
+        if u[0] == "box" and u[3][0] in ("call", "comp"):
+            u = u[3]
+        elif u[0] == "call" and u[1] in (("builtin", "list"), ("builtin", "tuple")) and len(u[2]) == 1:
+            u = u[2][0]
+        else:
+            break
+    if u[0] == "comp" and u[1] in ("list", "gen") and len(u[3]) == 1 and not [c for c in u[3][0][2] if c != TRUE]:
+        return _mapped_source(u[3][0][1])
+    if u[0] == "call" and u[1] == ("builtin", "map") and len(u[2]) == 2:
+        return _mapped_source(u[2][1])
+    if u[0] in ("binop", "list", "tuple"):
+        # `[f(x) for x in p] + [f(y)]` is `[f(z) for z in p + [y]]`: positions in it are positions in `p + [y]`
+        parts = seq(u)
+        mapped = [c for k, x in parts if k == "many" and (c := _comp_of(x)) is not None and c[0] != c[1]]
+        if len(parts) >= 2 and mapped:
+            elt, tgt, _src = mapped[0]
+            acc: Term | None = None
+            for kind, x in parts:
+                if kind == "many":
+                    c = _comp_of(x)
+                    if c is None or _match(elt, c[0], tgt) != c[1]:
+                        return t
+                    piece = _mapped_source(c[2])
+                else:
+                    y = _match(elt, x, tgt)
+                    if y is None:
+                        return t
+                    piece = ("list", (y,))
+                acc = piece if acc is None else ("binop", "+", acc, piece)
+            assert acc is not None
+            return acc
+    return t
+
+
+def _comp_of(t: Term):
+    """(element, target, source) of an unfiltered comprehension with one generator (through list() / tuple() and containers)."""
+    u = t
+    while True:
+        if u[0] == "box" and u[3][0] in ("call", "comp"):
+            u = u[3]
+        elif u[0] == "call" and u[1] in (("builtin", "list"), ("builtin", "tuple")) and len(u[2]) == 1:
+            u = u[2][0]
+        else:
+            break
+    if u[0] == "comp" and u[1] in ("list", "gen") and len(u[3]) == 1 and not [c for c in u[3][0][2] if c != TRUE]:
+        return u[2], u[3][0][0], u[3][0][1]
+    return None
+
+
+def _match(pattern: Term, value: Term, var: Term):
+    """The term that `var` must stand for to make `pattern` equal to `value` (None if there is none or `var` does not occur)."""
+    found: list = []
+
+    def go(p_, v_) -> bool:
+        if p_ == var:
+            found.append(v_)
+            return True
+        if isinstance(p_, tuple) and isinstance(v_, tuple) and len(p_) == len(v_):
+            return all(go(a_, b_) for a_, b_ in zip(p_, v_))
+        return p_ == v_
+
+    if go(pattern, value) and found and all(f_ == found[0] for f_ in found):
+        return found[0]
+    return None
+
+
+def _slice_len(lo, hi):
+    """c such that len(s[lo:hi]) == len(s) + c for sequences that are long enough (lo >= 0, hi <= 0 or absent); None otherwise."""
+    lo = lo or 0
+    if lo < 0 or (hi is not None and hi > 0):
+        return None
+    return -lo + (hi or 0)
+
+
+def _len_offset(t: Term, s: Term):
+    """c if `t` is `len(s) + c` (also through `len(s[lo:hi])`), else None."""
+    if t[0] == "binop" and t[1] in ("+", "-") and t[3][0] == "const" and isinstance(t[3][1], int):
+        inner = _len_offset(t[2], s)
+        return None if inner is None else inner + (t[3][1] if t[1] == "+" else -t[3][1])
+    if t[0] == "call" and t[1] == ("builtin", "len") and len(t[2]) == 1:
+        base, lo, hi = _slice_of(t[2][0])
+        if base == s:
+            return _slice_len(lo, hi)
+        parts = seq(s)
+        if len(parts) == 2 and parts[0] == ("many", base) and parts[1][0] == "one":
+            # s = p + [x]: len(p) == len(s) - 1
+            c = _slice_len(lo, hi)
+            return None if c is None else c - 1
+        if len(parts) == 2 and parts[0][0] == "one" and parts[1][0] == "many" and _slice_of(parts[1][1])[0] == base:
+            # s = [x] + q: len(q) == len(s) - 1
+            c = _slice_len(lo, hi)
+            return None if c is None else c - 1
+    return None
+
+
+def _reversed_of(s: Term):
+    """The sequence that `s` is the reverse of (`reversed(q)`, `q[::-1]`, `[x] + reversed(p)` = reversed(p + [x])), else None."""
+    u = s
+    while u[0] == "call" and u[1] in (("builtin", "list"), ("builtin", "tuple")) and len(u[2]) == 1:
+        u = u[2][0]
+    if u[0] == "call" and u[1] == ("builtin", "reversed") and len(u[2]) == 1:
+        return _mapped_source(u[2][0])
+    if u[0] == "slice" and is_const(u[2], None) and is_const(u[3], None) and is_const(u[4], -1):
+        return _mapped_source(u[1])
+    if u[0] == "binop":
+        parts = seq(u)
+        if len(parts) == 2 and parts[0][0] == "one" and parts[1][0] == "many":
+            r = _reversed_of(parts[1][1])
+            if r is not None:
+                return ("binop", "+", r, ("list", (parts[0][1],)))
+    return None
+
+
+def _forward(pos):
+    """A position in a reversed sequence as a position in the sequence itself: with the iterations counted from the last
+    to the first, element j + off of reversed(s) is element j' - off - c of s (the same iterations, in the opposite order)."""
+    if pos is None:
+        return None
+    s_, k, off, c = pos
+    r = _reversed_of(s_)
+    if r is None:
+        return pos
+    return (r, k, -off - c, c)
+
+
+def _rebase(pos, s: Term):
+    """The position expressed over the sequence `s` when it is written over the prefix p of s = p + [x] (element j of p is
+    element j of s; p has one element less)."""
+    if pos is None:
+        return None
+    if pos[0] == s:
+        return pos
+    parts = seq(s)
+    if len(parts) == 2 and parts[0] == ("many", pos[0]) and parts[1][0] == "one":
+        return (s, pos[1], pos[2], pos[3] - 1)
+    return None
+
+
+def _counter(i: Term):
+    """(loop id, a, stop term or None, sequence whose length bounds the loop or None) if the integer `i` is `j + a` for the
+    iteration counter j = 0, 1, ... of a loop."""
+    off = 0
+    while i[0] == "binop" and i[1] in ("+", "-") and i[3][0] == "const" and isinstance(i[3][1], int):
+        off += i[3][1] if i[1] == "+" else -i[3][1]
+        i = i[2]
+    if i[0] == "elem" and i[1][0] == "call" and i[1][1] == ("builtin", "range") and not i[1][3]:
+        args = i[1][2]
+        if len(args) == 1:
+            return i[2], off, ("const", 0), args[0]
+        if len(args) == 2 and args[0][0] == "const" and isinstance(args[0][1], int):
+            return i[2], off + args[0][1], args[0], args[1]
+    return None
+
+
+def _chain_pos(t: Term):
+    return _forward(_chain_pos_raw(t))
+
+
+def _chain_pos_raw(t: Term):
+    """(sequence s, loop id, offset, c): `t` is s[j + offset] in iteration j = 0 .. len(s) + c - 1 of the loop; None if not of that form.
+
+    Covers `for x in s[lo:hi]`, `zip(s[:-1], s[1:])`, `zip(s, s[1:])`, `zip(p, p[1:] + [x])`, `itertools.pairwise(s)`,
+    `for i in range(..): s[i + k]` and `enumerate`."""
+    if t[0] == "elem":
+        src, k = t[1], t[2]
+        if src[0] == "call" and src[1] in (("builtin", "zip"), ("builtin", "enumerate"), ("builtin", "range")):
+            return None
+        s_, lo, hi = _slice_of(src)
+        c = _slice_len(lo, hi)
+        if c is None:
+            return None
+        return s_, k, lo or 0, c
+    if t[0] == "idx":
+        base, i = t[1], t[2]
+        if base[0] == "elem" and base[1][0] == "call" and i[0] == "const" and i[1] in (0, 1):
+            it = base[1]
+            if it[1] == ("builtin", "zip") and len(it[2]) == 2:
+                a, b = _slice_of(it[2][0]), _slice_of(it[2][1])
+                ca, cb = _slice_len(a[1], a[2]), _slice_len(b[1], b[2])
+                if a[0] == b[0] and ca is not None and cb is not None:
+                    mine = (a, b)[i[1]]
+                    return mine[0], base[2], mine[1] or 0, min(ca, cb)
+                # zip(p, p[1:] + [x]) walks the consecutive pairs of p + [x]
+                tail = seq(it[2][1])
+                if a[1:] == (None, None) and len(tail) == 2 and tail[0][0] == "many" and _slice_of(tail[0][1]) == (a[0], 1, None) and tail[1][0] == "one":
+                    return ("binop", "+", a[0], ("list", (tail[1][1],))), base[2], i[1], -1
+                return None
+            if it[1][0] == "lib" and it[1][1].endswith("pairwise") and len(it[2]) == 1:
+                return it[2][0], base[2], i[1], -1
+            return None
+        cnt = _counter(i)
+        if cnt is not None:
+            k, off, start, stop = cnt
+            c = _len_offset(stop, base)
+            if c is None:
+                return None
+            return base, k, off, c - start[1]
+    return None
+
+
+def _index_span(pos):
+    """(first index, last index relative to len(s)) visited by a position: e.g. (0, -2) = s[0] .. s[len-2]."""
+    _s, _k, off, c = pos
+    return (off, c + off - 1)
+
+
+def _covers_all_pairs(parent, child) -> bool:
+    """The loop visits (s[j], s[j+1]) for every j in 0 .. len(s) - 2."""
+    if parent[0] != child[0] or parent[1] != child[1] or child[2] != parent[2] + 1:
+        return False
+    return parent[2] == 0 and parent[3] == -1 and child[3] == -1
+
+
+class _Names:
+    """Classification of the name symbols a node / edge end is made from."""
+
+    def __init__(self, modules_param: str, imports_param: str) -> None:
+        self.modules = ("param", modules_param)
+        self.imports = ("param", imports_param)
+
+    def _is_iter_of(self, t: Term, param: Term) -> bool:
+        src = t
+        while src[0] == "call" and src[1] in (("builtin", "list"), ("builtin", "tuple"), ("builtin", "sorted"), ("builtin", "iter")) and len(src[2]) == 1:
+            src = src[2][0]
+        return src == param
+
+    def _is_element_of(self, t: Term, param: Term) -> bool:
+        """`t` is an element of the parameter: the variable of a loop over it, or `param[i]` for an index running over all of it."""
+        if t[0] == "elem":
+            return self._is_iter_of(t[1], param)
+        if t[0] == "idx" and self._is_iter_of(t[1], param):
+            cnt = _counter(t[2])
+            return cnt is not None and cnt[1] == 0 and is_const(cnt[2], 0) and _len_offset(cnt[3], t[1]) == 0
+        return False
+
+    def symbol(self, t: Term):
+        """(kind, detail) for a term that *is* a name symbol, else None."""
+        if t[0] == "elem" and self._is_iter_of(t[1], self.modules):
+            return ("SCANNED", t)
+        if t[0] == "idx" and self._is_iter_of(t[1], self.modules):
+            cnt = _counter(t[2])
+            if cnt is not None and cnt[1] == 0 and is_const(cnt[2], 0) and _len_offset(cnt[3], t[1]) == 0:
+                return ("SCANNED", t)  # modules[i] for i in range(len(modules))
+        if t[0] == "mcall" and t[2] in ("importer", "importee", "importer_parent_modules", "importee_parent_modules") and self._is_element_of(t[1], self.imports):
+            return ("IMPORTEE" if t[2].startswith("importee") else "IMPORTER", t)
+        pos = _chain_pos(t)
+        if pos is not None:
+            inner = self.sources(pos[0])
+            kinds = {k for k, _ in inner}
+            if kinds:
+                kind = "IMPORTEE" if "IMPORTEE" in kinds else "IMPORTER" if "IMPORTER" in kinds else "SCANNED" if kinds == {"SCANNED"} else "OTHER"
+                return (kind + "-CHAIN", t)
+        return None
+
+    def sources(self, t: Term) -> list:
+        """Name symbols a value is derived from (outermost symbols only)."""
+        out: list = []
+
+        def visit(x: Term) -> None:
+            s = self.symbol(x)
+            if s is not None:
+                if s not in out:
+                    out.append(s)
+                return
+            if x[0] in ("elem", "loopvar") :
+                s2 = ("OTHER", x)
+                if s2 not in out:
+                    out.append(s2)
+                return
+            from .c04_symx import map_children
+
+            map_children(x, lambda y: (visit(y), y)[1])
+
+        visit(t)
+        return out
+
+
+def _graph_state_atoms(sx: SymX, f: Formula, graph: Term, config: set[str], ends: tuple = ()) -> set[str]:
+    """Atoms that only look at the graph built so far, at configuration parameters, or compare the two ends of an edge."""
+    ok = set()
+    for key in atoms_of(f):
+        t = sx.atoms.get(key)
+        if t is None:
+            continue
+        if t[0] == "cmp" and t[1] == "==" and len(ends) == 2 and {t[2], t[3]} == set(ends):
+            ok.add(key)  # an edge from a node to itself is never created
+            continue
+        subs = list(subterms(t))
+        if any(x[:2] == graph[:2] for x in subs):
+            ok.add(key)
+            continue
+        params = {x[1] for x in subs if x[0] == "param"}
+        if params and params <= config and not any(x[0] in ("elem", "loopvar", "mcall") for x in subs):
+            ok.add(key)
+    return ok
+
+
+def _is_presence_test(t: Term | None, x: Term, graph: Term) -> bool:
+    """`x in graph` / `graph.has_node(x)` (also on `graph.nodes`)."""
+    if t is None:
+        return False
+    if t[0] == "cmp" and t[1] == "in" and t[2] == x:
+        return any(y[:2] == graph[:2] for y in subterms(t[3]))
+    if t[0] == "mcall" and t[2] == "has_node" and t[3] == (x,):
+        return t[1][:2] == graph[:2]
+    return False
+
+
+def _is_node_test(t: Term, graph: Term) -> bool:
+    """`<name> in graph` / `graph.has_node(<name>)` for any name."""
+    if t[0] == "cmp" and t[1] == "in":
+        return t[3][:2] == graph[:2] or t[3][0] == "attr" and t[3][1][:2] == graph[:2]
+    return t[0] == "mcall" and t[1][:2] == graph[:2] and t[2] == "has_node"
+
+
+def _is_edge_test(t: Term, graph: Term) -> bool:
+    """A test about an *edge* of the graph (has_edge / get_edge_data / the inherits flag of an existing edge)."""
+    for y in subterms(t):
+        if y[0] == "mcall" and y[1][:2] == graph[:2] and y[2] in ("has_edge", "get_edge_data", "has_successor", "has_predecessor"):
+            return True
+    return False
+
+
+def _holds_whenever_state_allows(f: Formula, free: set[str]) -> bool:
+    """True if for every valuation of the other atoms some valuation of the `free` atoms makes `f` true."""
+    names = sorted(atoms_of(f))
+    others = [n for n in names if n not in free]
+    fr = [n for n in names if n in free]
+    if len(names) > 14:
+        return False
+    for ov in itertools.product([False, True], repeat=len(others)):
+        env = dict(zip(others, ov))
+        if not any(evaluate(f, {**env, **dict(zip(fr, fv))}) for fv in itertools.product([False, True], repeat=len(fr))):
+            return False
+    return True
+
+
+def _ancestors_function(repo: Repo, T) -> FuncInfo | None:
+    """The function that computes all parent modules of a dotted name: by role, it is what the public `Import.importer_parent_modules()`
+    returns for `Import(importer)`; falls back to the name it has today."""
+    imp = repo.modules.get(TYPES)
+    ci = imp.classes.get("Import") if imp is not None else None
+    if ci is not None:
+        init = ci.methods.get("__init__")
+        acc = ci.methods.get("importer_parent_modules")
+        if init is not None and acc is not None and len(init.param_names) >= 2:
+            try:
+                sx = SymX(repo, T, policy=lambda caller, callee: False)
+                tr = sx.run(init)
+                heap = tr.final.heap if tr.final is not None else {}
+                sx2 = SymX(repo, T, policy=lambda caller, callee: False)
+                tr2 = sx2.run(acc, heap=heap)
+                vals = {t for _pc, t in tr2.returns}
+                if len(vals) == 1:
+                    v = vals.pop()
+                    if v[0] == "call" and v[1][0] == "fn" and v[2] == (("param", init.param_names[1]),):
+                        return repo.funcs.get(v[1][1])
+            except AnalysisError:
+                pass
+    return repo.find_func(TYPES, "get_parent_modules")
+
+
+def rule_r4(repo: Repo, res: Result) -> None:
+    T = types_of(repo)
+    g = repo.cls(NXGRAPH, "NetworkxGraph")
+    init = g.methods.get("__init__")
+    if init is None:
+        raise AnalysisError("NetworkxGraph.__init__ not found")
+    gpm = _ancestors_function(repo, T)
+    if gpm is None:
+        raise AnalysisError("the function computing the parent modules of a module (get_parent_modules, used by Import.importer_parent_modules) was not found")
+    p = init.param_names
+    if len(p) < 3:
+        raise AnalysisError("NetworkxGraph.__init__(all_modules, imports, level_limit): signature not recognised")
+    sx = SymX(repo, T, keep=lambda f: f.fq == gpm.fq)
+    tr = sx.run(init)
+    tag = f"{init.relpath}::NetworkxGraph"
+    graphs = {e.result for e in tr.events if e.kind == "call" and e.func[0] == "lib" and e.func[1] in ("networkx.DiGraph", "networkx.Graph", "networkx.MultiDiGraph")}
+    if len(graphs) != 1:
+        res.undecide("C04.R4", f"{tag}::graph object", f"{len(graphs)} networkx graph objects are created during construction", where(init, init.node))
+        return
+    graph = graphs.pop()
+    names = _Names(p[1], p[2])
+    config = {p[3]} if len(p) > 3 else set()
+    node_events: list[tuple[Event, Term]] = []
+    edge_events: list[tuple[Event, Term, Term, Term | None]] = []
+    for e in tr.events:
+        if e.recv is None or e.recv[:2] != graph[:2] or e.kind not in ("call", "mut"):
+            continue
+        if e.name == "add_node" and e.args:
+            node_events.append((e, e.args[0]))
+        elif e.name == "add_edge" and len(e.args) >= 2:
+            inh = next((v for k, v in e.kwargs if k == "inherits"), None)
+            edge_events.append((e, e.args[0], e.args[1], inh))
+        elif e.name in ("add_nodes_from", "add_edges_from", "add_weighted_edges_from", "update", "add_path"):
+            res.undecide("C04.R4", repo.key(e.fi, stmt_of(e.node)) + f" [{e.name}]", "bulk graph construction is not analysed", where(e.fi, e.node))
+
+    api = {"importer", "importee", "importer_parent_modules", "importee_parent_modules"}
+    opaque = tr.opaque_calls(lambda e: e.func == ("fn", gpm.fq) or e.name in api)
+    lost = f"the construction calls `{norm(opaque[0].node, 70)}`, which the analysis cannot follow" if opaque else ""
+
+    def unconditional(e: Event) -> tuple[bool, str]:
+        """The node / edge is created whenever the graph does not contain it yet (edges: and contains both ends)."""
+        f = f_and(e.pc)
+        free = _graph_state_atoms(sx, f, graph, config, tuple(e.args[:2]) if e.name == "add_edge" else ())
+        if any(l.early_exit and not l.exits_only_when_exhausted() for l in e.loops):
+            l = next(l for l in e.loops if l.early_exit and not l.exits_only_when_exhausted())
+            return False, f"the enclosing loop `{norm(l.node, 60).split(':')[0]}` can be left early (break / return)"
+        # the state in which the creation matters: the node is absent / both ends are present, differ, and are not linked yet
+        fixed: dict[str, bool] = {}
+        ends = tuple(e.args[:2]) if e.name == "add_edge" else tuple(e.args[:1])
+        end_sources = [names.sources(x) for x in ends]
+
+        def is_end(x: Term) -> bool:
+            # the same name, depth-limited or not
+            return x in ends or (names.sources(x) in end_sources and bool(names.sources(x)))
+
+        for key in free:
+            t = sx.atoms.get(key)
+            if t is None:
+                continue
+            if t[0] == "cmp" and t[1] == "in" and t[3][:2] == graph[:2] and is_end(t[2]):
+                fixed[key] = e.name == "add_edge"
+            elif t[0] == "mcall" and t[1][:2] == graph[:2] and t[2] == "has_node" and len(t[3]) == 1 and is_end(t[3][0]):
+                fixed[key] = e.name == "add_edge"
+            elif t[0] == "mcall" and t[1][:2] == graph[:2] and t[2] == "has_edge" and tuple(t[3]) == ends:
+                fixed[key] = False
+            elif t[0] == "cmp" and t[1] == "is" and is_const(t[3], None) and t[2][0] == "mcall" and t[2][1][:2] == graph[:2] and t[2][2] == "get_edge_data" and tuple(t[2][3]) == ends:
+                fixed[key] = True
+            elif t[0] == "cmp" and t[1] == "==" and e.name == "add_edge" and {t[2], t[3]} == set(ends):
+                fixed[key] = False
+        f2 = simplify(substitute(f, fixed)) if fixed else f
+        if _holds_whenever_state_allows(f2, free - set(fixed)):
+            return True, ""
+        extra = sorted(a for a in atoms_of(f2) if a not in free)
+        if not extra:
+            return False, f"it does not happen for a {'module that is not a node yet' if e.name == 'add_node' else 'pair of existing, not yet linked nodes'} (condition: `{show_formula(f2)[:160]}`)"
+        return False, f"it additionally depends on `{' , '.join(extra)[:200]}`"
+
+    # ---- no node from imported names (every node creation)
+    k = 0
+    for e, a in node_events:
+        src = names.sources(a)
+        kinds = sorted({s[0] for s in src})
+        k += 1
+        ok = not any(kd.startswith("IMPORTEE") for kd in kinds)
+        if ok and (not kinds or any(kd.startswith("OTHER") for kd in kinds)):
+            res.undecide("C04.R4", repo.key(e.fi, stmt_of(e.node)) + " [node]", f"cannot tell which names `{show(a, 100)}` stands for (scanned modules, importers or imported names)", where(e.fi, e.node))
+            continue
+        res.add("C04.R4", repo.key(e.fi, stmt_of(e.node)) + f" [node from {kinds or ['?']}]", ok, "nodes are created from scanned modules / importers and their ancestors" if ok else f"`{norm(e.node, 60)}` creates a node from an *imported* name ({show(next(s[1] for s in src if s[0].startswith('IMPORTEE')), 100)}): names that are not files or directories of the scanned tree (relative import parts, functions, classes) become modules", where(e.fi, e.node), kind="flow")
+    if not opaque and not any(u["rule"] == "C04.R4" for u in res.undecided):
+        res.floor("C04.R4.nodes", 2, k)
+    # networkx creates missing end nodes of an edge: an edge that involves an imported name must be guarded by 'both ends are nodes'
+    for e, a, b, _inh in edge_events:
+        ends = [x for x in (a, b) if any(s_[0].startswith("IMPORTEE") for s_ in names.sources(x))]
+        if not ends:
+            continue
+        f = f_and(e.pc)
+        missing = []
+        too_big = False
+        for x in ends:
+            # `x in graph` / `graph.has_node(x)` / `x in graph.nodes`, evaluated alternative by alternative for a chosen name
+            tests_ = [sx.truth(("cmp", "in", x, graph)), sx.truth(("mcall", graph, "has_node", (x,), ())), sx.truth(("cmp", "in", x, ("attr", graph, "nodes")))]
+            if any(len(atoms_of(f) | atoms_of(t_)) > 16 for t_ in tests_):
+                too_big = True
+                continue
+            if not any(implies(f, t_) for t_ in tests_):
+                present = [key for key in atoms_of(f) if _is_presence_test(sx.atoms.get(key), x, graph)]
+                if not any(implies(f, atom(key)) for key in present):
+                    missing.append(x)
+        ok = not missing
+        kinds_ = sorted({s_[0] for x in ends for s_ in names.sources(x)})
+        unread = [key for key in atoms_of(f) if (t_ := sx.atoms.get(key)) is not None and any(y[:2] == graph[:2] for y in subterms(t_)) and not _is_node_test(t_, graph) and not _is_edge_test(t_, graph)]
+        if too_big or (not ok and unread):
+            res.undecide("C04.R4", repo.key(e.fi, stmt_of(e.node)) + f" [edge end from imported name: {', '.join(kinds_)}]", "the condition of the edge creation is too large to decide whether both ends are tested to be nodes" if too_big else f"cannot tell whether `{unread[0][:120]}` tests that both ends are nodes", where(e.fi, e.node))
+            continue
+        res.add("C04.R4", repo.key(e.fi, stmt_of(e.node)) + f" [edge end from imported name: {', '.join(kinds_)}]", ok, "edges to imported names are only added between existing nodes" if ok else f"`{norm(e.node, 60)}` adds an edge whose end `{show(missing[0], 80)}` comes from an imported name without testing that it is a node: networkx creates the missing node, so functions / classes / unresolved names become modules", where(e.fi, e.node), kind="dominance")
+    # ---- the hierarchy of every scanned module: get_parent_modules(module) + [module]
+    def chain_of(pos):
+        """(module symbol, 'full' | 'parents') if the position walks the ancestor chain of a scanned module."""
+        parts = seq(pos[0])
+        if len(parts) == 2 and parts[0][0] == "many" and parts[1][0] == "one":
+            anc, mod = parts[0][1], parts[1][1]
+            full = True
+        elif len(parts) == 1 and parts[0][0] == "many":
+            anc, mod, full = parts[0][1], None, False
+        else:
+            return None
+        if not (anc[0] == "call" and anc[1] == ("fn", gpm.fq) and len(anc[2]) == 1):
+            return None
+        if mod is None:
+            mod = anc[2][0]
+        sym = names.symbol(mod)
+        if anc[2] != (mod,) or sym is None or sym[0] != "SCANNED":
+            return None
+        return mod, "full" if full else "parents"
+
+    # which members of the chain become nodes / which scanned modules become nodes directly
+    direct = [(e, a) for e, a in node_events if [s_[0] for s_ in names.sources(a)] == ["SCANNED"]]
+    child_ok, child_why = False, "no node is created from the elements of the module list"
+    for e, _a in direct:
+        okc, why = unconditional(e)
+        if okc:
+            child_ok = True
+            break
+        child_why = why
+    parents_ok, parents_why = False, "no node is created for the ancestors of a scanned module (packages without own files are missing)"
+    for e, a in node_events:
+        pos = _sym_pos(names, a)
+        if pos is None:
+            continue
+        ch = chain_of(pos)
+        span = _index_span(pos)
+        if ch is None or span is None:
+            continue
+        okc, why = unconditional(e)
+        last_parent = -2 if ch[1] == "full" else -1
+        if span[0] == 0 and span[1] >= last_parent:
+            parents_ok, parents_why = (True, "") if okc else (parents_ok, why if not parents_ok else parents_why)
+        if ch[1] == "full" and span[1] == -1 and span[0] in (0, 1) and okc:
+            child_ok = True
+    e0 = direct[0][0] if direct else None
+    unknown_nodes = [e_ for e_, a_ in node_events if not names.sources(a_) or any(s_[0].startswith("OTHER") for s_ in names.sources(a_))]
+    if not child_ok and not direct and unknown_nodes:
+        res.undecide("C04.R4", f"{tag}::every scanned module becomes a node", f"cannot tell which names `{norm(unknown_nodes[0].node, 60)}` creates nodes for", where(unknown_nodes[0].fi, unknown_nodes[0].node))
+        child_ok = None
+    elif not child_ok and (opaque or "type(" in child_why or "isinstance(" in child_why):
+        res.undecide("C04.R4", f"{tag}::every scanned module becomes a node", lost or f"cannot interpret the condition of the node creation ({child_why})", where(e0.fi, e0.node) if e0 else where(init, init.node))
+        child_ok = None
+    if child_ok is not None:
+        res.add("C04.R4", f"{tag}::every scanned module becomes a node", child_ok, "every element of the module list becomes a node" if child_ok else f"not every scanned module becomes a node: {child_why}", where(e0.fi, e0.node) if e0 else where(init, init.node), kind="structural")
+    # consecutive inherits edges
+    order = {id(ev): i for i, ev in enumerate(tr.events)}
+    inherit_edges = [(e, a, b, inh) for e, a, b, inh in edge_events if inh is not None and not is_const(inh, False)]
+    best = None
+    unreadable: list = []
+    for e, a, b, inh in edge_events:
+        pa, pb = _sym_pos(names, a), _sym_pos(names, b)
+        if pa is not None and pb is not None and pa[0] != pb[0]:
+            pa = _rebase(pa, pb[0])  # `for i, parent in enumerate(parents): ... chain[i + 1]` with chain = parents + [module]
+        if pa is None or pb is None or pa[0] != pb[0]:
+            continue
+        if {s_[0] for s_ in names.sources(pa[0])} != {"SCANNED"}:
+            continue
+        problems = []
+        ch = chain_of(pa)
+        if ch is None or ch[1] != "full":
+            if not any(x[0] == "call" and x[1] == ("fn", gpm.fq) for x in subterms(pa[0])):
+                unreadable.append((e, pa[0]))
+                continue
+            problems.append(f"the linked chain is `{show(pa[0], 100)}`, not get_parent_modules(module) + [module] of the scanned module")
+        if not _covers_all_pairs(pa, pb):
+            problems.append("the loop does not visit every consecutive (parent, child) pair of the chain")
+        if not (inh is not None and is_const(inh, True)):
+            problems.append(f"the edge is created with inherits={show(inh, 30) if inh is not None else 'its default'}, not inherits=True")
+        okc, why = unconditional(e)
+        if not okc:
+            problems.append(f"the edge creation is not unconditional: {why}")
+        # the edge is only added between existing nodes: the parent's node must be created before, not after the edge is requested
+        same_step = [ne for ne, na in node_events if (pn := _sym_pos(names, na)) is not None and _rebase(pn, pa[0]) is not None and _rebase(pn, pa[0])[:3] == pa[:3]]
+        if same_step and all(order[id(ne)] > order[id(e)] for ne in same_step) and any(_is_node_test(t_, graph) for k_ in atoms_of(f_and(e.pc)) if (t_ := sx.atoms.get(k_)) is not None):
+            problems.append("the hierarchy edge is requested before the parent's node is created: the edge is skipped because one of its ends is not a node yet")
+        cand = (len(problems), e, problems)
+        if best is None or cand[0] < best[0]:
+            best = cand
+    ctag = f"{tag}::ancestors of every scanned module: nodes and consecutive parent->child hierarchy edges"
+    if best is None:
+        rec = _recursive_hierarchy(sx, tr, names, gpm, graph, config, node_events, edge_events)
+        if rec is not None:
+            ok_r, detail_r, e_r = rec
+            res.add("C04.R4", ctag, ok_r, detail_r, where(e_r.fi, e_r.node), kind="structural")
+            return
+    if best is None and unreadable:
+        e, chain = unreadable[0]
+        res.undecide("C04.R4", ctag, f"the ancestors linked by `{norm(e.node, 60)}` are `{show(chain, 100)}`: not computed by get_parent_modules, cannot tell whether they are all ancestors", where(e.fi, e.node))
+        return
+    if best is None:
+        if inherit_edges:
+            e = inherit_edges[0][0]
+            res.undecide("C04.R4", ctag, f"cannot recognise how `{norm(e.node, 60)}` links a scanned module to its ancestors", where(e.fi, e.node))
+        elif opaque:
+            res.undecide("C04.R4", ctag, lost, where(opaque[0].fi, opaque[0].node))
+        else:
+            res.add("C04.R4", ctag, False, "no hierarchy (inherits=True) edge is created between a scanned module and its ancestors", where(init, init.node), kind="structural")
+        return
+    _n, e, problems = best
+    if not parents_ok and opaque and parents_why.startswith("no node is created"):
+        res.undecide("C04.R4", ctag, lost, where(opaque[0].fi, opaque[0].node))
+        return
+    if not parents_ok:
+        problems = problems + [f"the ancestor nodes are not created for every scanned module: {parents_why}"]
+    ok = not problems
+    res.add("C04.R4", ctag, ok, "every scanned module is linked to all its ancestors: each consecutive (ancestor, descendant) pair gets a node and an inherits=True edge" if ok else "scanned modules are not linked to all their ancestors: " + "; ".join(problems), where(e.fi, e.node), kind="structural")
+
+
+def _recursive_hierarchy(sx: SymX, tr: Trace, names: "_Names", gpm: FuncInfo, graph: Term, config: set[str], node_events, edge_events):
+    """The hierarchy written as a structural recursion over the ancestors:
+
+        def link(parents, child):
+            if not parents: return
+            *rest, parent = parents
+            link(rest, parent); create_node(parent); create_edge(parent, child, inherits=True)
+
+    By induction on len(parents) this creates a node for every ancestor and links every consecutive pair of parents + [child].
+    Returns (verdict, detail, event) or None when the construction does not have this shape."""
+
+    def last_parent(t: Term):
+        for x in subterms(t):
+            if x[0] == "idx" and is_const(x[2], -1) and x[1][0] == "call" and x[1][1] == ("fn", gpm.fq) and len(x[1][2]) == 1:
+                return x[1], x[1][2][0]
+        return None
+
+    for e, a, b, inh in edge_events:
+        lp = last_parent(a)
+        if lp is None:
+            continue
+        parents, mod = lp
+        sym = names.symbol(mod)
+        if sym is None or sym[0] != "SCANNED" or [s_[1] for s_ in names.sources(b)] != [mod] or last_parent(b) is not None:
+            continue
+        rest = ("slice", parents, ("const", None), ("const", -1), ("const", None))
+        calls = [r for r in tr.events if r.kind == "call" and r.func[0] == "fn" and r.func[1] in e.stack and rest in r.args and ("idx", parents, ("const", -1)) in r.args]
+        if not calls:
+            continue
+        problems = []
+
+        def only_needs_ancestors(ev: Event, what: str) -> None:
+            f = f_and(ev.pc)
+            free = _graph_state_atoms(sx, f, graph, config, tuple(ev.args[:2]) if ev.name == "add_edge" else ())
+            free |= {k for k in atoms_of(f) if sx.atoms.get(k) == parents}  # `if parents:` - there is an ancestor at all
+            fixed = {k: (ev.name == "add_edge") for k in free if (t_ := sx.atoms.get(k)) is not None and _is_node_test(t_, graph)}
+            fixed.update({k: False for k in free if (t_ := sx.atoms.get(k)) is not None and (_is_edge_test(t_, graph) or t_[0] == "cmp" and t_[1] == "==")})
+            f2 = simplify(substitute(f, {k: v for k, v in fixed.items() if not (sx.atoms[k][0] == "cmp" and sx.atoms[k][1] == "is")}))
+            if not _holds_whenever_state_allows(f2, free - set(fixed)):
+                problems.append(f"{what} additionally depends on `{' , '.join(sorted(x for x in atoms_of(f2) if x not in free))[:160]}`")
+
+        only_needs_ancestors(e, "the hierarchy edge")
+        only_needs_ancestors(calls[0], "the recursive step")
+        if not (inh is not None and is_const(inh, True)):
+            problems.append(f"the edge is created with inherits={show(inh, 30) if inh is not None else 'its default'}, not inherits=True")
+        nodes = [ne for ne, na in node_events if last_parent(na) == lp]
+        if not nodes:
+            problems.append("no node is created for the direct parent in each step (ancestor packages without own files are missing)")
+        else:
+            only_needs_ancestors(nodes[0], "the creation of the ancestor's node")
+        ok = not problems
+        return ok, "every scanned module is linked to all its ancestors by a recursion over get_parent_modules(module): each step creates the last ancestor's node and links it to its child with inherits=True" if ok else "scanned modules are not linked to all their ancestors: " + "; ".join(problems), e
+    return None
+
+
+def _sym_pos(names: _Names, t: Term):
+    """Chain position of the single name symbol a node / edge end is made from."""
+    src = names.sources(t)
+    if len(src) != 1:
+        return None
+    return _chain_pos(src[0][1])
+
+
+# =========================================================================== R5
+
+
+def _concretise(sx: SymX, t: Term, facts: dict, internal: Term, depth: int = 0):
+    """Tuple of name components `t` evaluates to when membership of dotted names in `internal` is given by `facts`; None if unknown."""
+    if depth > 12:
+        return None
+    t = unbox(t)
+    if t[0] == "phi":
+        chosen = []
+        for g, v in t[1]:
+            val = _eval_guard(sx, g, facts, internal, depth + 1)
+            if val is None:
+                return None
+            if val:
+                chosen.append(v)
+        if len(chosen) != 1:
+            return None
+        return _concretise(sx, chosen[0], facts, internal, depth + 1)
+    if t[0] == "const" and isinstance(t[1], str):
+        return tuple(("c", p) for p in t[1].split(".")) if t[1] else ()
+    if t[0] == "fstr" or (t[0] == "binop" and t[1] == "+"):
+
+        def flat(x: Term) -> list:
+            x = unbox(x)
+            if x[0] == "fstr":
+                return [z for y in x[1] for z in flat(y)]
+            if x[0] == "binop" and x[1] == "+":
+                return flat(x[2]) + flat(x[3])
+            return [x]
+
+        items = flat(t)
+        out: list = []
+        glue = False  # the previous piece did not end at a separator
+        for x in items:
+            if x[0] == "const" and isinstance(x[1], str):
+                pieces = x[1].split(".")
+                for i, pc_ in enumerate(pieces):
+                    if i:
+                        glue = False
+                    if pc_:
+                        if glue:
+                            return None
+                        out.append(("c", pc_))
+                        glue = True
+                continue
+            sub = _concretise(sx, x, facts, internal, depth + 1)
+            if sub is None or glue:
+                return None
+            out += list(sub)
+            glue = True
+        return tuple(out)
+    if t[0] == "mcall" and t[2] == "join" and is_const(t[1], ".") and len(t[3]) == 1:
+        out2: list = []
+        for kind, x in seq(t[3][0]):
+            if kind != "one":
+                return None
+            sub = _concretise(sx, x, facts, internal, depth + 1)
+            if sub is None:
+                return None
+            out2 += list(sub)
+        return tuple(out2)
+    if t[0] in ("param", "attr", "elem", "idx", "mcall", "call", "loopvar"):
+        return (("s", t),)
+    return None
+
+
+def _eval_guard(sx: SymX, g: Formula, facts: dict, internal: Term, depth: int):
+    env = {}
+    for key in atoms_of(g):
+        t = sx.atoms.get(key)
+        if t is not None and ("truth", t) in facts:
+            env[key] = facts[("truth", t)]
+            continue
+        if t is None or not (t[0] == "cmp" and t[1] == "in" and t[3] == internal):
+            # not a membership test: decided by the path condition of the constructor call, or unknown
+            known = facts.get("known", TRUE)
+            if len(atoms_of(known)) <= 12 and implies(known, atom(key)):
+                env[key] = True
+                continue
+            if len(atoms_of(known)) <= 12 and implies(known, f_not(atom(key))):
+                env[key] = False
+                continue
+            return None
+        name = _concretise(sx, t[2], facts, internal, depth + 1)
+        if name is None or name not in facts:
+            return None
+        env[key] = facts[name]
+    return evaluate(g, env)
+
+
+def _name_symbols(sx: SymX, t: Term, internal: Term, depth: int = 0, known: Formula = TRUE) -> list[Term]:
+    """Opaque pieces (in order of first occurrence) a dotted name and the names tested for membership in `internal` are made of;
+    alternatives that `known` rules out are not looked at."""
+    out: list[Term] = []
+
+    def add(xs) -> None:
+        for x in xs:
+            if x not in out:
+                out.append(x)
+
+    if depth > 12:
+        return out
+    t = unbox(t)
+    if t[0] == "phi":
+        for g, v in t[1]:
+            if known != TRUE and len(atoms_of(g) | atoms_of(known)) <= 14 and implies(known, f_not(g)):
+                continue
+            for key in sorted(atoms_of(g)):
+                a = sx.atoms.get(key)
+                if a is not None and a[0] == "cmp" and a[1] == "in" and a[3] == internal:
+                    add(_name_symbols(sx, a[2], internal, depth + 1, known))
+            add(_name_symbols(sx, v, internal, depth + 1, known))
+    elif t[0] == "fstr":
+        for x in t[1]:
+            add(_name_symbols(sx, x, internal, depth + 1, known))
+    elif t[0] == "binop" and t[1] == "+":
+        add(_name_symbols(sx, t[2], internal, depth + 1, known))
+        add(_name_symbols(sx, t[3], internal, depth + 1, known))
+    elif t[0] == "mcall" and t[2] == "join" and is_const(t[1], ".") and len(t[3]) == 1 and all(k == "one" for k, _x in seq(t[3][0])):
+        for _k, x in seq(t[3][0]):
+            add(_name_symbols(sx, x, internal, depth + 1, known))
+    elif t[0] != "const":
+        out.append(t)
+    return out
+
+
+def _prefix_tested(sx: SymX, name: Term, P: Term, internal: Term) -> bool:
+    """Some membership test inside the name is made on a name that contains the prefix."""
+    for key in _all_guard_atoms(sx, name, internal):
+        t = sx.atoms.get(key)
+        if t is not None and t[0] == "cmp" and t[1] == "in" and t[3] == internal and P in leaves(t[2], ("param",)):
+            return True
+    return False
+
+
+def _all_guard_atoms(sx: SymX, t: Term, internal: Term, depth: int = 0) -> set[str]:
+    """Atoms of all guards inside a name, including those inside the names tested for membership."""
+    out: set[str] = set()
+    if depth > 8:
+        return out
+    for key in _guard_atoms(t):
+        out.add(key)
+        a = sx.atoms.get(key)
+        if a is not None and a[0] == "cmp" and a[1] == "in" and a[3] == internal:
+            out |= _all_guard_atoms(sx, a[2], internal, depth + 1)
+    return out
+
+
+def _joins_parts(t: Term) -> bool:
+    """`".".join(p.parts)`: empty for the empty relative path (the text of that path, also split and joined again, is ".")."""
+    u = unbox(t)
+    if not (u[0] == "mcall" and u[2] == "join" and len(u[3]) == 1):
+        return False
+    l = loc(u[3][0])
+    return l[0] == "attr" and l[2] == "parts"
+
+
+def _same_tests(sx: SymX, keys, M: Term, R: Term) -> dict[str, bool]:
+    """Atoms that test 'root_path equals module_path' -> polarity (True: the atom holds exactly when they are equal)."""
+    rel_mr = ("REL", M, R)
+    want = canon([("parts", ("REL", ("PARENT", M), ("PARENT", R)))])
+    tests: dict[str, bool] = {}
+    for k_ in sorted(keys):
+        t = sx.atoms.get(k_)
+        if t is None:
+            continue
+        if t[0] == "cmp" and t[1] == "==":
+            a, b2 = t[2], t[3]
+            c, o = (a, b2) if a[0] == "const" else (b2, a)
+            joined = _joins_parts(o)  # ".".join(()) is "", not "."
+            if is_const(c, ".") and not joined and (dotted(o) == [("parts", rel_mr)] or loc(o) == rel_mr):
+                tests[k_] = True
+            elif is_const(c, "") and joined and dotted(o) == [("parts", rel_mr)]:
+                tests[k_] = True
+            elif {strip_abs(loc(a)), strip_abs(loc(b2))} == {M, R}:
+                tests[k_] = True
+        elif loc(t) == ("attr", rel_mr, "parts"):
+            tests[k_] = False
+        elif dotted(t) == want or loc(t) == ("attr", want[0][1], "parts"):
+            tests[k_] = False  # the absolute-import prefix itself is empty exactly when both paths coincide
+        elif _joins_parts(t) and dotted(t) == [("parts", rel_mr)]:
+            tests[k_] = False  # the joined parts of the relative path are empty exactly when both paths coincide
+    return tests
+
+
+def _check_internal_prefix(sx: SymX, res: Result, tag: str, what: str, e: Event, arg: Term | None, M: Term, R: Term) -> None:
+    """The prefix that separates internal from external modules is the dotted name of module_path, starting with the root
+    directory's name: `root.name + "." + <module_path relative to root_path>` (a trailing '.' does not matter)."""
+    key = f"{tag}::internal module prefix of the {what}"
+    if arg is None:
+        res.undecide("C04.R5", key, "no prefix argument", where(e.fi, e.node))
+        return
+    arg = restrict(arg, e.guard)
+    tests = _same_tests(sx, _guard_atoms(arg), M, R)
+    for same in (False, True):
+        known = f_and([(atom(k) if pol == same else f_not(atom(k))) for k, pol in tests.items()])
+        v = restrict(arg, known)
+        if v[0] == "phi":
+            res.undecide("C04.R5", key, f"cannot tell which of the alternatives of `{show(v, 120)}` is used when root_path {'equals' if same else 'differs from'} module_path", where(e.fi, e.node))
+            return
+        d = dotted(v, trailing_dot=True)
+        want = [("item", ("attr", R, "name"))] if same else canon([("item", ("attr", R, "name")), ("parts", ("REL", M, R))])
+        accepted = [want, canon([("item", ("attr", R, "name")), ("parts", ("REL", M, R))])] if same else [want]
+        if d is None or (d not in accepted and not _path_vocabulary(d, (M, R), (R,))):
+            res.undecide("C04.R5", key, f"cannot read the prefix `{show(v, 120)}` as a dotted module name", where(e.fi, e.node))
+            return
+        if d not in accepted:
+            res.add("C04.R5", key, False, f"when root_path {'equals' if same else 'differs from'} module_path the {what} treats `{show_dotted(d)}` as the internal prefix instead of `{show_dotted(want)}`: modules outside the scanned sub-tree count as internal (or the sub-tree itself as external)", where(e.fi, e.node), kind="structural")
+            return
+    res.add("C04.R5", key, True, "internal modules are those below the dotted name of module_path (root directory name + path from root_path to module_path)", where(e.fi, e.node), kind="structural")
+
+
+def _guard_atoms(t: Term) -> set[str]:
+    """Atom keys of the guards of all guarded choices inside a term (including choices inside tested names)."""
+    out: set[str] = set()
+    for x in subterms(t):
+        if x[0] == "phi":
+            for g, _v in x[1]:
+                out |= atoms_of(g)
+    return out
+
+
+def _show_name(n) -> str:
+    return ".".join(p[1] if p[0] == "c" else show(p[1], 40) for p in n)
+
+
+def rule_r5(repo: Repo, res: Result) -> None:
+    T = types_of(repo)
+    # ---- strip-family calls with a multi-character / computed argument remove a character *set*, not a prefix or suffix
+    from core.fold import fold
+
     for f in repo.all_functions():
         for c in calls_in(f.node):
             if isinstance(c.func, ast.Attribute) and c.func.attr in ("strip", "lstrip", "rstrip") and c.args:
                 a = c.args[0]
                 single = isinstance(a, ast.Constant) and isinstance(a.value, str) and len(a.value) == 1
                 if not single:
-                    from core.fold import fold
-
-                    v = fold(repo, f.module, a, f)
+                    try:
+                        v = fold(repo, f.module, a, f)
+                    except Exception:  # noqa: BLE001
+                        v = None
                     single = v is not None and len(v) == 1
-                s_n += 1
                 res.add("C04.R5", repo.key(f, stmt_of(c)) + f" [{norm(c, 50)}]", single, "strips a single character" if single else f"`{norm(c, 70)}` removes any run of the *characters* of its argument, not that suffix/prefix: path components spelled with those letters are eaten as well", where(f, c), kind="structural")
-    # sibling consistency: absolute importees pass the root-prefix adjustment, relative ones do not
-    conv = repo.cls(CONVERTER, "ImportConverter")
-    cv = conv.methods.get("_convert")
-    adj = conv.methods.get("_adjust_with_root_prefix")
-    if cv is None or adj is None:
-        raise AnalysisError("ImportConverter._convert / _adjust_with_root_prefix not found")
+    # ---- the prefix handed to the converter by the path entry point
+    ge = repo.func(ENTRY, "get_evaluable_architecture")
+    sx = SymX(repo, T)
+    tr = sx.run(ge)
+    tag = f"{ge.relpath}::{ge.qualname}"
+    conv_cls = repo.cls(CONVERTER, "ImportConverter")
+    convert = conv_cls.methods.get("convert")
+    if convert is None:
+        raise AnalysisError("ImportConverter.convert (public entry point of the import conversion) not found")
+    cp = convert.param_names[1:]
+    if len(cp) != 3:
+        raise AnalysisError("ImportConverter.convert(asts, absolute_import_prefix, internal_modules): signature not recognised")
+    calls = [e for e in tr.events if e.kind == "call" and e.func == ("fn", convert.fq)]
+    if len(calls) != 1:
+        res.undecide("C04.R5", f"{tag}::absolute-import prefix", f"{len(calls)} calls of ImportConverter.convert reached from the path entry point", where(ge, ge.node))
+    else:
+        e = calls[0]
+        b = _bind_args(convert, e)
+        prefix = b.get(cp[1])
+        internal = b.get(cp[2])
+        from_names = internal is not None and any(x[0] == "idx" and is_const(x[2], 0) and x[1][0] == "mcall" and x[1][2] == "parse" for x in subterms(internal))
+        from_files = internal is not None and any(x[0] == "idx" and is_const(x[2], 1) and x[1][0] == "mcall" and x[1][2] == "parse" for x in subterms(internal))
+        from_scan = internal is not None and any(x[0] == "mcall" and x[2] == "parse" for x in subterms(internal))
+        ikey = f"{tag}::internal modules <- scan result"
+        if from_names:
+            res.add("C04.R5", ikey, True, "the set of internal modules handed to the import conversion is computed from the scanned module names", where(e.fi, e.node), kind="flow")
+        elif from_files:
+            res.add("C04.R5", ikey, False, "the internal-module set of the import conversion is computed from the parsed *files* only: package directories are missing, so imports of packages (`from pkg import sub_package`, names relative to module_path's parent) do not resolve", where(e.fi, e.node), kind="flow")
+        elif from_scan or _has_lost_parts(internal) or internal is not None and internal[0] == "box" and internal[3][0] in ("unk", "loopvar"):
+            res.undecide("C04.R5", ikey, f"cannot tell which part of the scan result `{show(internal, 80)}` is", where(e.fi, e.node))
+        else:
+            res.add("C04.R5", ikey, False, f"the internal-module set of the import conversion is `{show(internal, 80) if internal is not None else '?'}`: not computed from the scanned modules, so no prefixed name can ever be recognised", where(e.fi, e.node), kind="flow")
+        M, R = ("param", "module_path"), ("param", "root_path")
+        ext = [x for x in tr.events if x.kind == "call" and x.name == "ExternalImportFilter" and x.func[0] == "cls"]
+        if len(ext) == 1:
+            _check_internal_prefix(sx, res, tag, "external-import filter", ext[0], ext[0].arg(1, "root_module_name"), M, R)
+        want = canon([("parts", ("REL", ("PARENT", M), ("PARENT", R)))])
+        if prefix is None:
+            res.undecide("C04.R5", f"{tag}::absolute-import prefix", "no prefix argument", where(e.fi, e.node))
+        else:
+            prefix = restrict(prefix, e.guard)
+            alts = alternatives(prefix)
+            # `name or "."`: the name when it is not empty, else the constant
+            expanded = []
+            for g, v in alts:
+                if v[0] == "boolop" and v[1] == "or" and len(v[2]) == 2 and v[2][1][0] == "const":
+                    tr_ = sx.truth(v[2][0])
+                    expanded += [(f_and([g, tr_]), v[2][0]), (f_and([g, f_not(tr_)]), v[2][1])]
+                else:
+                    expanded.append((g, v))
+            alts = [(g, v) for g, v in expanded if g != FALSE]
+            main = [(g, v) for g, v in alts if not (is_const(v, "") or is_const(v, "."))]  # '.name' / '..name' are never modules
+            ds = [dotted(v) for _g, v in main]
+            key = f"{tag}::absolute-import prefix"
+            if not main:
+                res.add("C04.R5", key + " [source]", False, "the absolute-import prefix is always empty: imports written relative to module_path's parent never resolve", where(e.fi, e.node), kind="structural")
+            elif any(d is None for d in ds):
+                v = main[ds.index(None)][1]
+                res.undecide("C04.R5", key + " [source]", f"cannot read the prefix `{show(v, 160)}` as a dotted path", where(e.fi, e.node))
+            elif any(d != want and not _path_vocabulary(d, (M, R)) for d in ds):
+                d = next(d for d in ds if d != want and not _path_vocabulary(d, (M, R)))
+                res.undecide("C04.R5", key + " [source]", f"cannot compare the prefix `{show_dotted(d)}` with module_path.parent relative to root_path.parent", where(e.fi, e.node))
+            elif any(d != want for d in ds):
+                d = next(d for d in ds if d != want)
+                res.add("C04.R5", key + " [source]", False, f"the absolute-import prefix is `{show_dotted(d)}`: not module_path.parent relative to root_path.parent in dotted notation", where(e.fi, e.node), kind="structural")
+            else:
+                res.add("C04.R5", key + " [source]", True, "absolute-import prefix = module_path.parent relative to root_path.parent, dotted", where(e.fi, e.node), kind="structural")
+            # tests of 'root_path equals module_path' in the guards of the alternatives
+            tests = _same_tests(sx, {a_ for g, _ in alts for a_ in atoms_of(g)}, M, R)
+            def as_same(f: Formula) -> Formula:
+                return rename_atoms(f, lambda k_: (atom("SAME") if tests[k_] else f_not(atom("SAME"))) if k_ in tests else None)
 
-    def transfer(f: FuncInfo, call_: ast.Call, names, args, recv, kwargs):
-        if isinstance(call_.func, ast.Attribute) and call_.func.attr == adj.name:
-            return {"ADJ"}
-        return None
-
-    def src2(f: FuncInfo, e: ast.expr):
-        if isinstance(e, ast.Attribute) and e.attr in ("name", "module") and isinstance(e.value, ast.Name):
-            return {"RAWNAME"}
-        return None
-
-    fl2 = Flow(repo, T, Spec(sources=src2, transfer=transfer, objects_carry=False, scope=lambda f: f is cv))
+            if main:
+                g_main = as_same(f_or([g for g, _ in main]))
+                ok = implies(f_not(atom("SAME")), g_main)
+                if not ok and atoms_of(g_main) - {"SAME"}:
+                    res.undecide("C04.R5", key + " [used whenever the paths differ]", f"cannot read `{show_formula(g_main)[:160]}` as a test on 'root_path equals module_path'", where(e.fi, e.node))
+                else:
+                    res.add("C04.R5", key + " [used whenever the paths differ]", ok, "the prefix is used whenever module_path differs from root_path" if ok else f"the prefix is only used under `{show_formula(g_main)[:120]}`: not whenever module_path differs from root_path", where(e.fi, e.node), kind="dominance")
+    # ---- the converter: absolute importees are adjusted, relative ones are not
+    sx2 = SymX(repo, T)
+    tr2 = sx2.run(convert)
+    P, I = ("param", cp[1]), ("param", cp[2])
     k2 = 0
-    for c in calls_in(cv.node):
-        ci = T.ctor_class(cv, c)
-        if ci is None:
+    for e in tr2.events:
+        if e.kind != "call" or e.func[0] != "cls":
             continue
-        if ci.name == "AbsoluteImport" and len(c.args) >= 2:
+        cname = e.func[1].rsplit(".", 1)[-1]
+        key = repo.key(e.fi, stmt_of(e.node))
+        if cname == "AbsoluteImport" and len(e.args) >= 2:
             k2 += 1
-            tags = set(fl2.tags(c.args[1]))
-            ok = "ADJ" in tags and "RAWNAME" not in (tags - {"ADJ"}) or tags == {"ADJ"} or ("ADJ" in tags)
-            # every definition reaching the argument must be adjusted: RAWNAME may only appear through the adjusted value joined with alias names
-            res.add("C04.R5", repo.key(cv, stmt_of(c)) + " [absolute importee adjusted]", "ADJ" in tags, "the absolute importee went through the root-prefix adjustment" if "ADJ" in tags else f"`{norm(c, 70)}` builds an absolute import whose name never passed {adj.name}: imports written relative to module_path's parent no longer resolve when a sub-directory is scanned", where(cv, c), kind="flow")
-        if ci.name == "RelativeImport":
+            name = restrict(e.args[1], e.guard)
+            carried = [x for x in subterms(name) if x[0] == "loopvar"]
+            if carried:
+                res.add("C04.R5", key + " [absolute importee adjusted]", False, f"the importee of one imported name depends on the previous one: `{carried[0][1]}` is carried over from an earlier iteration of the loop over the imported names", where(e.fi, e.node), kind="flow")
+                continue
+            verdict, detail = _check_adjusted_by_cases(sx2, name, P, I, e.guard)
+            if verdict is None:
+                res.undecide("C04.R5", key + " [absolute importee adjusted]", detail, where(e.fi, e.node))
+            else:
+                res.add("C04.R5", key + " [absolute importee adjusted]", verdict, detail, where(e.fi, e.node), kind="decision-table")
+        elif cname == "RelativeImport":
             k2 += 1
-            bad = [a for a in c.args if "ADJ" in fl2.tags(a)]
-            res.add("C04.R5", repo.key(cv, stmt_of(c)) + " [relative importee not adjusted]", not bad, "relative imports are resolved against the importer only" if not bad else "a relative import receives a root-prefix-adjusted name", where(cv, c), kind="flow")
-    res.floor("C04.R5.imports", 3, k2)
-    # the adjustment: prefix + "." + name if that is an internal module, else the name
-    rets = [s for s in own_nodes(adj.node) if isinstance(s, ast.Return)]
-    names_ = adj.param_names[1:]
-    full = [s for s in own_nodes(adj.node) if isinstance(s, ast.Assign) and isinstance(s.value, ast.JoinedStr)]
-    ok = len(rets) == 2 and len(full) == 1 and [norm(v.value) if isinstance(v, ast.FormattedValue) else v.value for v in full[0].value.values] == [names_[1], ".", names_[0]]
-    if ok:
-        fv = dotted(full[0].targets[0])
-        r_full = [r for r in rets if dotted(r.value) == fv]
-        r_plain = [r for r in rets if dotted(r.value) == names_[0]]
-        ok = len(r_full) == 1 and len(r_plain) == 1 and implies(guard_formula(adj, r_full[0]), atom(f"{fv} in {names_[2]}"))
-    res.add("C04.R5", f"{adj.relpath}::{adj.qualname}::adjustment", ok, "prefix.name is used exactly when it is a scanned internal module" if ok else "the root-prefix adjustment is not `prefix.name if that is an internal module else name`", where(adj, adj.node), kind="dominance")
-    return res
+            bad = [a for a in e.args if P in leaves(a, ("param",))]
+            res.add("C04.R5", key + " [relative importee not adjusted]", not bad, "relative imports are resolved against the importer only" if not bad else "a relative import receives a root-prefix-adjusted name", where(e.fi, e.node), kind="flow")
+    # vacuity: both kinds of import objects must have been seen (their number depends on how the branches are written)
+    kinds = {e.func[1].rsplit(".", 1)[-1] for e in tr2.events if e.kind == "call" and e.func[0] == "cls"}
+    for cname in ("AbsoluteImport", "RelativeImport"):
+        if cname not in kinds:
+            res.undecide("C04.R5", f"{convert.relpath}::{convert.qualname}::{cname}", f"no {cname} is constructed on any path of the conversion", where(convert, convert.node))
+    res.floor("C04.R5.imports", 2, k2)
+
+
+def _check_adjusted_by_cases(sx: SymX, name: Term, P: Term, I: Term, guard: Formula):
+    """`_check_adjusted` for every case of the tests inside the name that distinguish the kind of the import statement
+    (`isinstance(node, ast.ImportFrom)`): one constructor call may serve `import x` and `from x import y`."""
+    cases = []
+    for key in sorted(_all_guard_atoms(sx, name, I)):
+        t = sx.atoms.get(key)
+        if t is not None and t[0] == "call" and t[1] == ("builtin", "isinstance"):
+            cases.append(key)
+    if not cases or len(cases) > 3:
+        return _check_adjusted(sx, name, P, I, guard)
+    verdicts = []
+    for values in itertools.product([False, True], repeat=len(cases)):
+        known = f_and([guard, *[(atom(k) if v else f_not(atom(k))) for k, v in zip(cases, values)]])
+        if len(atoms_of(known)) <= 12 and not implies(TRUE, f_not(known)) is False and simplify(known) == FALSE:
+            continue
+        verdicts.append(_check_adjusted(sx, restrict(name, known), P, I, known))
+    bad = [v for v in verdicts if v[0] is False]
+    if bad:
+        return bad[0]
+    unknown = [v for v in verdicts if v[0] is None]
+    if unknown:
+        return unknown[0]
+    return verdicts[0] if verdicts else (None, "no feasible case of the import statement kinds")
+
+
+def _check_adjusted(sx: SymX, name: Term, P: Term, I: Term, guard: Formula = TRUE):
+    """Decision table of an absolute importee over membership of the candidate names in the internal-module set.
+
+    Expected: x = `prefix.n` if that is internal else `n`; for `from n import a`: `x.a` if that is internal else x."""
+    # the raw symbols the name is made of (module / alias names of the ast node), in values and in the guards of choices
+    syms = [x for x in _name_symbols(sx, name, I, 0, guard) if x != P]
+    for key in sorted(atoms_of(guard)):
+        # names tested for membership on the way to this constructor call (`if sub_module in internal: ... else: ...`)
+        t_ = sx.atoms.get(key)
+        if t_ is not None and t_[0] == "cmp" and t_[1] == "in" and t_[3] == I:
+            syms += [x for x in _name_symbols(sx, t_[2], I, 0, guard) if x != P and x not in syms]
+    if any(not (x[0] == "attr" and x[2] in ("name", "module")) for x in syms):
+        odd = next(x for x in syms if not (x[0] == "attr" and x[2] in ("name", "module")))
+        return None, f"cannot tell what `{show(odd, 80)}` contributes to the importee name"
+    mods = [s for s in syms if s[2] == "module"]
+    aliases = [s for s in syms if s[2] == "name"]
+    if len(mods) > 1 or len(aliases) > 1 or not syms:
+        return None, f"cannot tell which names `{show(name, 120)}` is built from"
+    p = ("s", P)
+    if mods:
+        n = ("s", mods[0])
+        # `from n import y` whose importee never looks at y: y stands for any imported name (it may be a sub module of n)
+        a = ("s", aliases[0]) if aliases else ("s", ("attr", ("unk", "<imported name>", 0), "name"))
+    else:
+        n = ("s", aliases[0])
+        a = None
+    universe = [(p, n), (n,)]
+    if a is not None:
+        universe += [(p, n, a), (n, a)]
+    # an empty prefix may be tested for explicitly: no internal module starts with '.'
+    tests_prefix = any(sx.atoms.get(k) == P for k in _all_guard_atoms(sx, name, I))
+    if tests_prefix:
+        universe = universe + [("truth", P)]
+    # textual tests on the raw names (`x.startswith(prefix + ".")`) say nothing about what was scanned: free variables
+    raw = {n[1]} | ({a[1]} if a is not None else set())
+    textual = []
+    for k in sorted(_all_guard_atoms(sx, name, I)):
+        t = sx.atoms.get(k)
+        if t is not None and t[0] == "mcall" and t[1] in raw and t[2] in ("startswith", "endswith") and ("truth", t) not in universe:
+            textual.append(t)
+            universe = universe + [("truth", t)]
+    labels = {P: "prefix", n[1]: "x"}
+    if a is not None:
+        labels[a[1]] = "y"
+    stmt = "from x import y" if a is not None else "import x"
+
+    def text(nm) -> str:
+        if nm and nm[0] == "truth":
+            t_ = nm[1]
+            return f"{labels.get(t_[1], '?')}.{t_[2]}({', '.join(show(z, 40) for z in t_[3])})".replace(show(P), "prefix")
+        return ".".join(q[1] if q[0] == "c" else labels.get(q[1], show(q[1], 40)) for q in nm)
+
+    mismatches = []
+    for values in itertools.product([False, True], repeat=len(universe)):
+        facts = dict(zip(universe, values))
+        facts["known"] = guard
+        # (a scanned module's package need not be in the set: packages above module_path are not, their sub-packages are)
+        if tests_prefix and not facts[("truth", P)] and (facts[(p, n)] or a is not None and facts[(p, n, a)]):
+            continue  # with an empty prefix `prefix.name` starts with '.', which no module name does
+        x = (p, n) if facts[(p, n)] else (n,)
+        expected = x
+        if a is not None:
+            xa = x + (a,)
+            expected = xa if facts.get(xa, False) else x
+        # scenarios in which this constructor call is not reached do not count
+        env = {}
+        for key in atoms_of(guard):
+            t = sx.atoms.get(key)
+            if t is not None and t[0] == "cmp" and t[1] == "in" and t[3] == I:
+                nm = _concretise(sx, t[2], facts, I)
+                if nm is not None and nm in facts:
+                    env[key] = facts[nm]
+        if env and simplify(substitute(guard, env)) == FALSE:
+            continue
+        got = _concretise(sx, name, facts, I)
+        if got is None:
+            return None, f"cannot evaluate `{show(name, 140)}` for a given set of internal modules"
+        if got != expected:
+            inside = [k for k, v in facts.items() if k != "known" and v and (k[0] != "truth" or k[1] in textual)]
+            mismatches.append((sum(1 for k in inside if k[0] != p), len(inside), inside, got, expected))
+    if mismatches:
+        # report the most natural witness: internal modules are fully qualified names
+        _r, _n, inside, got, expected = min(mismatches, key=lambda m: (m[0], m[1]))
+        tested = _prefix_tested(sx, name, P, I) or any(
+            (t_ := sx.atoms.get(k_)) is not None and t_[0] == "cmp" and t_[1] == "in" and t_[3] == I and _prefix_tested(sx, t_[2], P, I) for k_ in atoms_of(guard)
+        )
+        if all(p not in m[3] for m in mismatches) and not tested:
+            why = "its name never passes the root-prefix adjustment: imports written relative to module_path's parent no longer resolve when a sub-directory is scanned"
+        elif a is not None and len(got) < len(expected):
+            why = "the sub-module test is skipped or made on another name than the adjusted one: the importee is the package instead of the sub module"
+        else:
+            why = "the name is not `prefix.x` exactly when that is a scanned module"
+        mods_ = [text(k) for k in inside if k[0] != "truth"]
+        cond_ = [text(k) for k in inside if k[0] == "truth"]
+        return False, f"`{stmt}` with internal modules {{{', '.join(mods_)}}}" + (f" and `{' and '.join(cond_)}`" if cond_ else "") + f" yields the importee `{text(got)}` instead of `{text(expected)}`: {why}"
+    return True, "the absolute importee is `prefix.name` exactly when that is a scanned module" + (" (sub-module test on the adjusted name)" if a is not None else "")
